@@ -12,1130 +12,2605 @@ Definition show_fres (r : fres) : string :=
   end.
 Definition check (rs : list rune) : string := digest (show_fres (format_res rs)).
 Definition full (rs : list rune) : string := show_fres (format_res rs).
-Eval vm_compute in ("<<<M226>>>" ++ check (runes_of_ascii "root packet Foo { @tag(00	)
-char[] _x
-@calculatedFrom(
-    // trailing space 
-    ""{,}"" ) ,@rightPad	( '0' )f32 Pad@calculatedFrom( ""abc""
-// @lengthOf(
-// " ++ [27880; 37322]%N ++ runes_of_ascii "
-)
-, @rightPad
-    ( '0' )  repeat falsey string_
-// @lengthOf(
-// " ++ [128512]%N ++ runes_of_ascii " emoji
-`{ , }` , @calculatedFrom( ""abc"" )//
-@tag(
-00 ) rootA@calculatedFrom( ""it's"" ), BodyLength/// triple
-lengthOf `doc` , Z9_{ f64 Z9_ ,T
-charz
-    `" ++ [233]%N ++ runes_of_ascii "`
-, x {
-tag crc,
-    repeat uint32	chars
-, zchar[ 0123456789 ]roots ,
-int64 charz@calculatedFrom(
-    ""it's"" ) `" ++ [28040; 24687; 31867; 22411]%N ++ runes_of_ascii "` ,} , i8 msg_type//	t
-@lengthOf( options1 )
-,
-    } ,
-    repeat MetaDataX { matchKey i64_ , string tag @lengthOf(
-    msg_type )// trailing space 
-, tag { string f32a
-,// " ++ [27880; 37322]%N ++ runes_of_ascii "
-match crc as u128
-{	4294967296  :
-    Z9_ ,""" ++ [28040; 24687]%N ++ runes_of_ascii """ : a1 ,//	t
-65535 : T , [ ""CRC32"" ,
-1
-, ""packet"" ]
-: x_y_z , } ,	string matchKey @calculatedFrom(""" ++ [28040; 24687]%N ++ runes_of_ascii """ ) `two words`	, } , char[ 65535 // trailing space 
-] Header@calculatedFrom( ""CRC32"" ) `// not a comment` ,
-} ,match
-Foo as metadata	{
-[""1"" ,
-//	t
-// " ++ [27880; 37322]%N ++ runes_of_ascii "
-""""
-] :  metadata	[ 0123456789  ] : tag ,
-""1"" :  T
-//	t
-// a // b
-4294967296
-    :x , // packet A { u8 x, }
-0 :
-trueish ,	""{,}"" :  metadata , // a // b
-}, zchar[255
-]
-    u128
-@lengthOf(float ) ,// trailing space 
-} packet a1
-{ @rightPad ( ' ' ) @tag( 7//x
-)@tag( 10 )
-//	t
-// trailing space 
-Header { Packet @lengthOf( lengthOf ) , string
-options1
-,
-match zchar as pack
-{ """" :o , """ ++ [28040; 24687]%N ++ runes_of_ascii """ :	leftPad  , """ ++ [28040; 24687]%N ++ runes_of_ascii """ :
-crc } ,	Z9_
-//x
-// trailing space 
-{
-    //
-    len//	t
-int ,  } ,
-    },}
-")).
-Eval vm_compute in ("<<<M107>>>" ++ check (runes_of_ascii "packet chars
-{
-    i8 Z9_ ,
-match
-// " ++ [128512]%N ++ runes_of_ascii " emoji
-//	t
-zchar
-    as Logon
-{ 00	: i8i8[
-    ""// no comment""
-, 42
-    , 10 , ""it's"" , 4294967296
-, ""`tick`"" ,
-    ""x y"" , ""a\""b"" ]
-    :leftPad [ ""\" ++ [233]%N ++ runes_of_ascii """ ]: A [ ""abc"" /// triple
-, ""1""
-    ] :
-zchar ,	3 :
-x,
-    3 :
-x_y_z , }
-    , uint8x // a // b
-@calculatedFrom(
-    ""{,}"" )//x
-, } // `tick` ""quote"" 'q'
-packet calculatedFrom { int32
-T, @lengthOf( float ) f32a len , @calculatedFrom(""" ++ [233]%N ++ runes_of_ascii "t" ++ [233]%N ++ runes_of_ascii """
-    ) int32 f32a
-@lengthOf( // c
-matchKey
-) `" ++ [233]%N ++ runes_of_ascii "`
-, charz @calculatedFrom( ""x y""),} root packet stringy //	t
-{ @lengthOf( Logon )
-int64 len
-    //x
-    @calculatedFrom( // `tick` ""quote"" 'q'
-""CRC32"") , T // " ++ [27880; 37322]%N ++ runes_of_ascii "
-@calculatedFrom( ""1"" ) `line1
-line2`, @tag( 255 )
-    @tag( 7 )@tag(
-007
-)repeat
-packetx len
-//	t
-// packet A { u8 x, }
-, @tag(
-1 ) repeat  zchar[
-0] float , //
-@lengthOf(
-    lengthOf ) repeat x_y_z {char[ 10]u `
-`
-    , MetaDataX a1
-    `u8 x,`  , }  , @tag( 1 ) string repeatCount `" ++ [28040; 24687; 31867; 22411]%N ++ runes_of_ascii "`,
-int8 int @calculatedFrom(
-""// no comment""
-) , } packet
-    asx
-{
-    @leftPad ( '\x00' )
-char[
-    00]
-u8x @calculatedFrom( """ ++ [233]%N ++ runes_of_ascii "t" ++ [233]%N ++ runes_of_ascii """ ) , zchar[007 ] asx @calculatedFrom(
-""" ++ [128512]%N ++ runes_of_ascii """)	,repeat MetaDataX metadata
-    `
-`,
-    } 	 ")).
-Eval vm_compute in ("<<<M1568>>>" ++ check (runes_of_ascii "options {
-    StringPrefixLenType = u8;
+Eval vm_compute in ("<<<M3580>>>" ++ check (runes_of_ascii "options {
+    LittleEndian = true;
     ArrayPrefixLenType = u8;
-    FixedStringPadFromLeft = true;
-    FixedStringPadChar = ' ';
+    FixedStringPadChar = '0';
+    JavaPackage = ""com.example.msg"";
+    GoPackage = ""msg"";
+    GoModule = ""example.com/msg"";
 }
-
-packet Logout {
-    repeat string Px,
-    repeat string seqNo,
-    InMsgkind64 {
-        uint16 OrderId,
-        char[] count,
-        repeat i32 venue,
-    },
+MetaData Meta {
+    u32 SeqNum `sequence number`,
+    char[8] Symbol `symbol`,
+    zchar[5] ZSym `z symbol`,
+    string Note,
+    Symbol AltSymbol `alias of symbol`,
+    f64 Price,
 }
-
-packet Heartbeat {
-    float32 tag7,
-    repeat InPrice50 {
-        repeat char[5] lastPx,
-        InRef42 {
-            u8 pad0,
-        },
-        uint32 Acct,
-        repeat Logout,
-        repeat char[5] Qty,
-    },
-    repeat InSeqno30 {
-        repeat Logout,
-    },
-    @leftPad('0')
-    char[12] Acct,
-    char[] Side2,
-    repeat string msgKind,
-}
-
-packet Ack {
-    Heartbeat,
-    char[8] seqNo,
-    float64 clOrdID,
-}
-
-packet Trade {
-    char[] OrderId,
-    f64 Side2,
-    zchar[8] f1,
-    string Qty,
-    float64 seqNo,
-    repeat Logout,
-}
-
-packet Order {
-    f32 OrderId,
-    repeat u8 x,
-    Ack,
-    zchar[7] Note,
-}
-
-root packet Logon {
-    @rightPad('\x00')
-    char[9] f1,
-}")).
-Eval vm_compute in ("<<<M1805>>>" ++ check (runes_of_ascii "
-root
-
-packet
-body
-{ 	 /// triple
-    	crc
-
-    x_y_z `say ""hi""`
-,  float // `tick` ""quote"" 'q'
-  _x ,T  // " ++ [128512]%N ++ runes_of_ascii " emoji
-    `a\` 
-
-    // " ++ [27880; 37322]%N ++ runes_of_ascii "
-  ,uint64 MetaDataX	, repeat
-
-zchar[7
-	]calculatedFrom
-``
-,
-uint32
-len 
-
-// c
-    // @lengthOf(
-
-`a\`  , }	/// triple
-  options
-	{
-	} packet
-    a1
-    {
-
-    @tag(
-1)	Logon
-
-@lengthOf( options1
-)
-`{ , }`
-,
-    @calculatedFrom(
-	""abc"") 
-/// triple
-		f32a// " ++ [27880; 37322]%N ++ runes_of_ascii "
-    {	leftPad {// trailing space 
-      o
-matchKey ``	, }
-	,
-
-    int32 
-int 
-	    // c
-	// @lengthOf(
-    ``,
-
-char[  007 ]
-zchar
-	@lengthOf( Z9_)
-`tab	here`
-
-    ,char[  1
-    ]
-	falsey
-
-    ,},
-
-    repeat int16  Z9_ 
-, match zchar
-as zchar 
-{""packet"":x_y_z,  [ 3 
-
-// " ++ [128512]%N ++ runes_of_ascii " emoji
-,
-
-""CRC32""
-    ,	0
-
-, ""CRC32"" //
-
-,
-0123456789
-]  :
-
-    len
-,
-
-[ 
-0
-
-, 4294967296] : Packet
-
-, [
-65535
-    ]
-:
-    options1
-
-[
-	10 ]	//	t
-  : u128
-    ,
-	}
-
-,  // packet A { u8 x, }
-}")).
-Eval vm_compute in ("<<<M1927>>>" ++ check (runes_of_ascii "  packet
-    Pad  { char[	007
-	] string_
-    ,	// @lengthOf(
-		@lengthOf( zchar )
-
-    string
-    rootA
-
-    ,
-    @lengthOf( T )  char	trueish @lengthOf(zchar	)`line1
-line2`
-,
-repeat 
-f64
-
-    calculatedFrom ,
-@calculatedFrom(
-
-""it's"") leftPad
-
-    `it's` ,
-stringy {
-	int8 Packet	@lengthOf(  metadata  )	`tab	here`, A
-
-,
-	match charz  as uint8x{	3 :
-
-    MetaDataX ,
-1:
-//	t
-    charz
-	""a	b"" 
-: 
-//x
-msg_type,
-	//x
-[
-	0 
-,
-10
-,""// no comment""
-,
-
-""\" ++ [233]%N ++ runes_of_ascii """
-
-    ]
-	: A
-
-    ,	// @lengthOf(
-""\n"" :
-trueish
-,
-
-    } ,
-
-    }, @calculatedFrom(	""a\\"" )	char[
-
-    7
-
-]u
-
-@calculatedFrom( ""a\\""
-
-)  , 
-    //	t
-@tag(
-    7  )
-o{
-As
-`it's`,}	,  } packet
-
-    u
-
-{
-    }
-	packet
-
-    stringy {
-@tag( 0123456789	) string
-
-    pack	@lengthOf(
-
-    Pad ) ,}")).
-Eval vm_compute in ("<<<M2017>>>" ++ check (runes_of_ascii "options
-
-{
-    LittleEndian
-=
-
-false
-    ;  StringPrefixLenType=
-
-    u16	; ArrayPrefixLenType
-=  u32
-    ;}
-
-packet
-
-Order{uint8
-x
-, repeat	string  venue ,
-    } packet
-
-    Heartbeat {
-    i64
-    count,
-	zchar[ 1
-] Qty
-, repeat
-InX29  {  InSeqno26{
-int64
-f1
-
-, 
-char[ 
-5 ]  Acct	,Order	,
-
-    } ,
-
-    repeat
-	InSide285 {
-	repeat 
-Order	,	char[10 ]
-
-Px
-,  zchar[9 ]
-
-OrderId
-,
-
-    }	,
-    char[]
-	venue,	Order 
-,}
-    ,
-@rightPad
-('\x00'
-)
-	char[	4]	clOrdID 
-,  } root
-
-packet
-Party
-{zchar[
-    3  ]f1
-	,
-    u32
-clOrdID ,
-u32
-    Px @lengthOf(  Body
-
-) , 
-match
-
-    clOrdID
-    as 
-Body {
-[  180 , 64 
-]
-
-: Heartbeat
-    ,11 :
-    Order
-    ,  },u32 Side2	@calculatedFrom( 
-""CR\
-C32""
-
-) ,
-}
-")).
-Eval vm_compute in ("<<<M333>>>" ++ check (runes_of_ascii "// a // b
-packet matchKey{
-@rightPad( // c
-' ' // trailing space 
-)
-@tag(007) @lengthOf( float )
-repeat	packetx ,
-    // @lengthOf(
-    @calculatedFrom(""a\""b"" )/// triple
-@tag(
-    255 )@tag( 00 )
-    Pad
-    @calculatedFrom(
-""" ++ [28040; 24687]%N ++ runes_of_ascii """ ) `{ , }` , } root
-packet
-string_
-    { repeat Logon
-//
-//x
-{ match Z9_ as float {
-""packet""
-: packetx
-    , [
-""CRC32"" , 42 // a // b
-,	00
-    // `tick` ""quote"" 'q'
-    , ""packet"" //
-] : Foo, """ ++ [28040; 24687]%N ++ runes_of_ascii """ : BodyLength , [
-""CRC32""] : x_y_z	,
-    00 :
-    packetx, 7 : rootA , } ,
-}
-, repeat
-    // c
-    metadata { u16 Logon `
-` ,
-    matchKey @calculatedFrom(
-"""" //	t
-) , repeat// c
-char[]leftPad,
-} , }
-")).
-Eval vm_compute in ("<<<M153>>>" ++ check (runes_of_ascii "packet  BodyLength { @rightPad // packet A { u8 x, }
-()
-i32 packetx
-@lengthOf( leftPad) ,  @lengthOf( MetaDataX
-    ) leftPad
-    ,
-    _x {
-match
-zchar as zchar {
-    [ // `tick` ""quote"" 'q'
-""a\\"" ]
-: crc """ ++ [28040; 24687]%N ++ runes_of_ascii """ :
-Foo ,  1 : trueish ,	42 : rootA , [ 4294967296
-// @lengthOf(
-// `tick` ""quote"" 'q'
-]
-    //	t
-    :
-    float
-    // " ++ [128512]%N ++ runes_of_ascii " emoji
-    ""a\\"": Foo ,}  ,	repeat
-float
-    leftPad, uint8x i8i8 ,char[ 255  ]As// trailing space 
-,	} ,  char[
-    // " ++ [27880; 37322]%N ++ runes_of_ascii "
-    4294967296
-] uint8x`u8 x,` , @leftPad ( )
-float32
-body `two words` , }
-")).
-Eval vm_compute in ("<<<M211>>>" ++ check (runes_of_ascii "packet leftPad
-    {  BodyLength
-{ // a // b
-rootA {
-char[ 00]
-leftPad,
-    // trailing space 
-    tag // " ++ [27880; 37322]%N ++ runes_of_ascii "
-@calculatedFrom( ""abc""
-    // " ++ [128512]%N ++ runes_of_ascii " emoji
-    ) , char[	42 ] // c
-len ,
-string MetaDataX  ,}, match Z9_ as A { ""1""  : x, ""packet"" // trailing space 
-: lengthOf	} , i64
-    // trailing space 
-    chars @lengthOf(	msg_type
-    ) `
-`
-, },zchar[ 3 //
-]  u128
-    @lengthOf(//	t
-packetx
-) , @leftPad ( '\x00'
-)char[] chars @calculatedFrom( ""`tick`"" ) //
-, }
-")).
-Eval vm_compute in ("<<<M1418>>>" ++ check (runes_of_ascii "packet Frame {
-    u8 HK,
-    u8 BK,
-    u8 TK,
-    match HK as Hdr {
-        1 : HdrA,
-        2 : HdrB,
-    },
-    match BK as Body {
-        1 : BodyA,
-        2 : BodyB,
-    },
-    match TK as Trl {
-        1 : TrlA,
-    },
-}
-packet HdrA {
+packet Inner {
     u8 a,
+    i16 b,
+    string c,
 }
-packet HdrB {
-    u16 b,
+packet Inner2 {
+    u8 a2,
+    char[3] c2,
 }
-packet BodyA {
-    u32 c,
+packet Logon {
+    u8 x,
+    string user,
+    repeat u16 codes,
 }
-packet BodyB {
-    u64 d,
+packet Logout {
+    u16 reason,
 }
-packet TrlA {
-    u8 e,
+packet Empty {
 }
 root packet Msg {
-    Frame,
-    u8 x,
+    u8 su8,
+    uint8 luint8,
+    u16 su16,
+    uint16 luint16,
+    u32 su32,
+    uint32 luint32,
+    u64 su64,
+    uint64 luint64,
+    i8 si8,
+    int8 lint8,
+    i16 si16,
+    int16 lint16,
+    i32 si32,
+    int32 lint32,
+    i64 si64,
+    int64 lint64,
+    f32 sf32,
+    float32 lfloat32,
+    f64 sf64,
+    float64 lfloat64,
+    char[6] fsplain,
+    @leftPad('0') char[4] fs0,
+    @rightPad('0') char[5] fs1,
+    @leftPad(' ') char[6] fs2,
+    @rightPad(' ') char[7] fs3,
+    @leftPad('\x00') char[8] fs4,
+    @rightPad('\x00') char[9] fs5,
+    @leftPad() char[10] fs6,
+    @rightPad() char[11] fs7,
+    zchar[7] fz,
+    @leftPad('0') zchar[3] fzl0,
+    string s1 `doc`,
+    char[] s2,
+    Inner,
+    Sub {
+        u8 q,
+        string w,
+        Deep {
+            u16 z,
+            repeat i32 zs,
+        },
+    },
+    repeat u8 ru8,
+    repeat u16 ru16,
+    repeat u32 ru32,
+    repeat u64 ru64,
+    repeat i8 ri8,
+    repeat i16 ri16,
+    repeat i32 ri32,
+    repeat i64 ri64,
+    repeat f32 rf32,
+    repeat f64 rf64,
+    repeat string rstr,
+    repeat char[] rstr2,
+    repeat char[3] rfs,
+    repeat zchar[3] rfz,
+    repeat Inner2,
+    repeat Grp {
+        u8 k,
+        char[2] v,
+    },
+    SeqNum,
+    SeqNum seq2,
+    repeat SeqNum seqs,
+    Symbol,
+    AltSymbol alt,
+    ZSym,
+    Note,
+    repeat Symbol syms,
+    Price px,
+    u16 MsgType,
+    u32 BodyLen @lengthOf(Body),
+    match MsgType as Body {
+        1 : Logon,
+        [2, 3] : Logout,
+        7 : Logon,
+        9 : Empty,
+    },
+    u32 Checksum @calculatedFrom(""CRC32""),
 }
 ")).
-Eval vm_compute in ("<<<M1556>>>" ++ check (runes_of_ascii "  root  packet  i64_{	}	options	{
-    chars
-	=char[
-
-    65535	] body 
-=
-
-    ""abc""
-
-    ;
-u=
-""`tick`""
-	trueish
-=
-    '0'
-}
-options {repeatCount = '\x00' 
-    // " ++ [128512]%N ++ runes_of_ascii " emoji
-
-  /// triple
-	;	f32a
-=
-    ""\n"" 
-int 
-    /// triple
-= 
-false	Pad=
-
-    ""1"" 
-repeatCount 
-=	""// no comment""  ;
-	}
-	root
-    packet
-string_  {
-    i32 As
-	`tab	here`,}	// c
-")).
-Eval vm_compute in ("<<<M158>>>" ++ check (runes_of_ascii "packet crc { // " ++ [128512]%N ++ runes_of_ascii " emoji
-int `" ++ [28040; 24687; 31867; 22411]%N ++ runes_of_ascii "`,  repeat Header	`doc` ,
-    @tag(
-    // " ++ [128512]%N ++ runes_of_ascii " emoji
-    65535 )
-    leftPad BodyLength
-    `// not a comment` // " ++ [128512]%N ++ runes_of_ascii " emoji
-, /// triple
-char[ 42 ]
-    roots	`` // a // b
-, } packet
-    uint8x
-    // `tick` ""quote"" 'q'
-    { @lengthOf(
-i8i8 )
-// trailing space 
-//	t
-Pad
-    MetaDataX//	t
-,}
-")).
-Eval vm_compute in ("<<<M1405>>>" ++ check (runes_of_ascii "packet 
-MDSnapshotZZ
-{
-	u8 a , 
-}  packet OrderACK {
-    u16
-
-    b
-
-    , }
-
-packet
-HTTPServerInfo{  string s  , 
-}	root 
-packet
-FIXMsg { u8	KType
-
-    ,  MDSnapshotZZ,repeat
-
-OrderACK
-,	match 
-KType  as Body {
-	1 : HTTPServerInfo
+Eval vm_compute in ("<<<M1321>>>" ++ check (runes_of_ascii "packet repeatCount {
+    char[ 65535 ] Pad `" ++ [233]%N ++ runes_of_ascii "` , @calculatedFrom( ""CRC32"" )@calculatedFrom( // `tick` ""quote"" 'q'
+""" ++ [28040; 24687]%N ++ runes_of_ascii """ //	t
+) @calculatedFrom( ""{,}"" ) repeat  leftPad A //x
 ,
+@leftPad ( '\x00')
+    u128
+@lengthOf(  Packet
+    )
+    `two words` , float32
+len
+,zchar[ 007 ]// packet A { u8 x, }
+pack@calculatedFrom(""\n"" ) ,
+    @tag(
+/// triple
+// " ++ [128512]%N ++ runes_of_ascii " emoji
+3 )
+    // trailing space 
+    @tag( 0123456789 // " ++ [128512]%N ++ runes_of_ascii " emoji
+)
+    match leftPad as MetaDataX { 1
+// " ++ [128512]%N ++ runes_of_ascii " emoji
+// packet A { u8 x, }
+:
+    Z9_
+} ,
+float
+    `a\`// " ++ [128512]%N ++ runes_of_ascii " emoji
+, } options {
+tag =""CRC32"" ; float
+= false x_y_z
+    // " ++ [27880; 37322]%N ++ runes_of_ascii "
+    = ""packet"" ; }packet
+    //
+    pack {
+@tag( 00)
+T { zchar[/// triple
+65535 ]
+    // `tick` ""quote"" 'q'
+    tag @calculatedFrom(""abc""
+    ) `{ , }`	,
+    char[] Z9_ @lengthOf( // c
+Header
+) , repeat
+    options1,
+    }
+, char[] len
+    ,@calculatedFrom( ""1"" ) repeat a1 `// not a comment`
+    , @lengthOf(uint8x )string _x @lengthOf( Pad
+) , u64 o // " ++ [128512]%N ++ runes_of_ascii " emoji
+@lengthOf( Header )
+`a\`
+,
+    T { string body
+// 50% %s
+// trailing space 
+@calculatedFrom( ""a\""b"" )
+`// not a comment`
+,
+    } , zchar[
+    255
+// a // b
+// @lengthOf(
+]string_  , roots , match
+uint8x// a // b
+as
+pack{ """ ++ [233]%N ++ runes_of_ascii "t" ++ [233]%N ++ runes_of_ascii """ :
+    Foo
+,
+""a\""b"" :Logon 3 :
+crc
+    007 :
+    lengthOf ,
+}// " ++ [128512]%N ++ runes_of_ascii " emoji
+, @tag(0123456789 //
+) match Z9_ as float { [""// no comment"" , ""// no comment"" ] :
+    // `tick` ""quote"" 'q'
+    int
+, } ,
+    } packet  _x {@leftPad(
+'0' ) char[] leftPad , @tag( 10 )
+repeat float64 zchar
+    , char[65535 ]stringy  `crlf
+line`
+,
+    //
+    i64
+repeatCount @lengthOf( int )
+`it's` , i8i8
+@calculatedFrom( // @lengthOf(
+""1"" // " ++ [27880; 37322]%N ++ runes_of_ascii "
+) `// not a comment`
+    // trailing space 
+    , u32	u
+    // c
+    ,
+}")).
+Eval vm_compute in ("<<<M600>>>" ++ check (runes_of_ascii "
+packet
+BodyLength
+{
+repeat char[ 65535	] repeatCount ,
+} packet
+T {@lengthOf( matchKey )
+f64 float @lengthOf( int) ,
+    repeat u16 //x
+Z9_ , repeat char[0 ] falsey
+    , } root packet trueish { repeat
+uint64 i8i8 `" ++ [28040; 24687; 31867; 22411]%N ++ runes_of_ascii "`// trailing space 
+,
+@tag( 10)
+    /// triple
+    zchar[ 10  ]
+uint8x , @calculatedFrom( //
+""{,}"" )
+@tag(
+1
+)
+@calculatedFrom(
+    ""CRC32"" )
+    match // trailing space 
+Packet as matchKey {0 :
+tag,	65535 : options1
+, }
+    , repeat
+    u { calculatedFrom
+@calculatedFrom( //x
+""\n"" )
+// " ++ [27880; 37322]%N ++ runes_of_ascii "
+// " ++ [27880; 37322]%N ++ runes_of_ascii "
+`100% of %d`
+    , string x @lengthOf( zchar  ) `100% of %d`
+,
+    match MetaDataX as
+Logon {0
+    :/// triple
+T,42 : // @lengthOf(
+A 3 :  rootA	65535
+    :x_y_z , } ,char[] packetx @calculatedFrom(""" ++ [233]%N ++ runes_of_ascii "t" ++ [233]%N ++ runes_of_ascii """ ), }  ,
+    x // " ++ [27880; 37322]%N ++ runes_of_ascii "
+`
+` , repeat// 50% %s
+Pad {
+// 50% %s
+// packet A { u8 x, }
+zchar[ 1
+    ] A @lengthOf(  Z9_ ), metadata
+{
+repeat
+    packetx a1 , u16
+// a // b
+// packet A { u8 x, }
+string_ //	t
+`tab	here`
+, Foo
+`u8 x,` , } ,/// triple
+match
+    i64_ as msg_type {1
+:
+// trailing space 
+//
+msg_type ,
+3	: rootA,
+    65535 : As,} ,string Z9_ @lengthOf( // c
+MetaDataX )
+    , } ,  MetaDataX { f64 packetx , repeat char Z9_
+,
+    u8x  i8i8  , }
+    ,uint8 i64_ `// not a comment`, @lengthOf( _x )
+    BodyLength
+,
+    stringy {	repeat zchar[ 0123456789]  i8i8 // " ++ [128512]%N ++ runes_of_ascii " emoji
+, }
+, } root packet
+float // `tick` ""quote"" 'q'
+{ // packet A { u8 x, }
+@lengthOf( _x
+)	o@calculatedFrom(
+""{,}""
+    )
+//
+//x
+`line1
+line2` , }
+")).
+Eval vm_compute in ("<<<M4525>>>" ++ check (runes_of_ascii "  root
 
-    2
-	:
+    packet
+A
+{	match
 
-    OrderACK  ,
-	}
+rootA
+as
+Packet /// triple
+	{
+[ 
+3, 
+""// no comment"", """ ++ [128512]%N ++ runes_of_ascii """,
 
+    """" ,	""""  ]	: int 	 // 50% %s
+  ,
+[
+0,  /// triple
+    	""1""
+, 
+""" ++ [128512]%N ++ runes_of_ascii """  ,
+
+    0
+
+,
+    ""x y""
+
+    , ""it's""
+, 00
+
+, 
+""it's""  ]	:  pack, 00 :
+    trueish  // c
+  , 0123456789
+:
+A, [
+7
+
+    ,
+
+    ""x y""
+
+, ""\" ++ [233]%N ++ runes_of_ascii """ ,""1"" ,
+0123456789	]
+
+:
+	Header
+	,	007	: 
+repeatCount	, } ,
+char[]  repeatCount
+	@calculatedFrom(
+	""{,}""
+), // " ++ [128512]%N ++ runes_of_ascii " emoji
+	float{  match
+	repeatCount
+as
+
+    u8x {
+10  :a1	//	t
+	3	:asx	// `tick` ""quote"" 'q'
+  [ 
+""" ++ [28040; 24687]%N ++ runes_of_ascii """
+        // `tick` ""quote"" 'q'
+    ]	:
+
+    leftPad 7
+:
+    asx	// a // b
+
+  , 007  : 
+x , ""x y"" 
+: Logon 
+      // 50% %s
+    	, }
+	,  zchar[
+
+    42 ]  repeatCount@calculatedFrom( ""\n""
+
+) , float32// " ++ [128512]%N ++ runes_of_ascii " emoji
+	repeatCount
+`{ , }` 
+,
+    string
+    tag	`
+`
+
+,  } ,
+
+    x  Logon
+	// trailing space 
+  //
+  `
+` 
+,	repeat	u128
+,@calculatedFrom(
+
+    ""a\\""
+
+    )
+zchar[
+    3  
+      /// triple
+    ]
+
+Logon , @tag(	007  )
+
+    Pad
+	`100% of %d` ,
+
+    }packet //	t
+      chars {@lengthOf(// a // b
+lengthOf
+) @tag(
+10 )
+repeat  string_
+
+    ,
+}packet	Z9_
+{  charz,
+    match metadata as 
+charz
+
+{  7:
+
+    Foo	,
+
+42  :
+
+float 
+,
+	""a\""b""
+: 
+zchar, [	1
+, 4294967296
+,  ""it's""
+
+    ,1 	 // trailing space 
+  ]
+
+:	crc, }
+    ,
+
+    }
+")).
+Eval vm_compute in ("<<<M367>>>" ++ check (runes_of_ascii "// packet A { u8 x, }
+packet uint8x { @lengthOf(
+    trueish )asx msg_type
+// @lengthOf(
+// packet A { u8 x, }
+`
+`
+    ,@lengthOf(
+    trueish ) match// c
+falsey
+as  Foo{ 10 // " ++ [27880; 37322]%N ++ runes_of_ascii "
+:calculatedFrom , 1
+    : roots , [
+// c
+// `tick` ""quote"" 'q'
+00
+]  :
+rootA
+//
+// a // b
+,} , repeat f64 i8i8`doc`,	match T
+    as	o {255	: i8i8	, ""// no comment""
+: crc, ""1"" : pack
+    , ""CRC32"":len // a // b
+,} , @calculatedFrom(
+""x y"" //
+) crc
+@calculatedFrom(
+""abc"") ,repeat i64 pack , } MetaData o {
+    }
+    MetaData i8i8 {
+Pad
+    rootA `{ , }` , roots
+msg_type ,  f64
+    msg_type ,
+metadata//x
+i8i8
+,uint8x leftPad `a\`, int32
+//
+// `tick` ""quote"" 'q'
+charz
+`
+`
+,} packet len {char[ // 50% %s
+255 ] f32a @calculatedFrom( ""a	b"" ) // c
+`100% of %d` ,	f64
+u8x , options1 { string charz `a\` , char[0123456789 ]falsey@calculatedFrom( ""\" ++ [233]%N ++ runes_of_ascii """ ) , repeat
+As {  char[]Foo
+, }, repeat	zchar[ 10] Logon `// not a comment` ,
+}, @lengthOf(i8i8
+)
+match repeatCount as options1
+{ 3 : Logon , } , // `tick` ""quote"" 'q'
+match
+    // 50% %s
+    roots  as BodyLength {
+[ 42// `tick` ""quote"" 'q'
+,
+    0123456789
+, 65535 ,""packet"" ,
+""" ++ [233]%N ++ runes_of_ascii "t" ++ [233]%N ++ runes_of_ascii """ , 00 ,
+""" ++ [233]%N ++ runes_of_ascii "t" ++ [233]%N ++ runes_of_ascii """] :
+i8i8, ""packet"" : string_, 0123456789: matchKey
+    ,}
     ,
 }
 ")).
-Eval vm_compute in ("<<<M106>>>" ++ check (runes_of_ascii "// " ++ [27880; 37322]%N ++ runes_of_ascii "
-options //x
-{ msg_type
-//x
-//	t
-= '0'} packet _x { // `tick` ""quote"" 'q'
-@tag( 00  ) @tag(1)	char[] a1
-,
-// packet A { u8 x, }
+Eval vm_compute in ("<<<M984>>>" ++ check (runes_of_ascii "packet MetaDataX{ @tag(3 // " ++ [128512]%N ++ runes_of_ascii " emoji
+)  match
+asx as
+u8x{ [ ""CRC32"" ] : chars
+0123456789:
+    rootA , //x
+65535 :  len ,
+""" ++ [128512]%N ++ runes_of_ascii """ : charz/// triple
+} , lengthOf Z9_
+`
+` , char[]A @calculatedFrom( """ ++ [233]%N ++ runes_of_ascii "t" ++ [233]%N ++ runes_of_ascii """ ) , char[]	T
+    ,
+i32 repeatCount , @calculatedFrom(""" ++ [128512]%N ++ runes_of_ascii """	)
+    pack
+@lengthOf( chars) `line1
+line2`
+    // 50% %s
+    ,
+    @tag( 0123456789
+    ) f32a { match MetaDataX as f32a { 7 // " ++ [27880; 37322]%N ++ runes_of_ascii "
+: options1  """"
+: // " ++ [27880; 37322]%N ++ runes_of_ascii "
+chars 255
+    :
+// `tick` ""quote"" 'q'
 /// triple
-} packet float
-//	t
-// " ++ [128512]%N ++ runes_of_ascii " emoji
-{ }
-//	t
-// packet A { u8 x, }
-MetaData
-    // `tick` ""quote"" 'q'
-    Foo {
-}")).
-Eval vm_compute in ("<<<M1526>>>" ++ check (runes_of_ascii "packet B {
-    // c2
-    u8 a,
-    // c5
-}// c6a
-
-// c6b
-root packet P {
-    // c10a
-    // c10b
-    u8 K,// c13a
-    // c13b
-    u64 L @lengthOf(Body),
-    // c19
-    match K as Body {
-        // c24
-        1 : B,
-    },
-}// c31")).
-Eval vm_compute in ("<<<M494>>>" ++ check (runes_of_ascii "options
-{
-matchKey = 42/// triple
-x='0' ;
-// packet A { u8 x, }
-//
-charz
-=
-// packet A { u8 x, }
-// trailing space 
-true  ; } MetaData BodyLength
-{
-uint8
-pack,zchar[ char[]]float ,  float32 x_y_z `` ,u32
-_x,i16 body  , }
-")).
-Eval vm_compute in ("<<<M492>>>" ++ check (runes_of_ascii "options
-{
-matchKey = 42/// triple
-x='0' ;
-// packet A { u8 x, }
-//
-charz
-=
-// packet A { u8 x, }
-// trailing space 
-true  ; } MetaData BodyLength
-{
-uint8
-pack,zchar[ 1 1]float ,  float32 x_y_z `` ,u32
-_x,i16 body  , }
-")).
-Eval vm_compute in ("<<<M389>>>" ++ check (runes_of_ascii "{
-options
-matchKey = 42/// triple
-x='0' ;
-// packet A { u8 x, }
-//
-charz
-=
-// packet A { u8 x, }
-// trailing space 
-true  ; } MetaData BodyLength
-{
-uint8
-pack,zchar[ 1]float ,  float32 x_y_z `` ,u32
-_x,i16 body  , }
-")).
-Eval vm_compute in ("<<<M539>>>" ++ check (runes_of_ascii "options
-{
-matchKey = 42/// triple
-x='0' ;
-// packet A { u8 x, }
-//
-charz
-=
-// packet A { u8 x, }
-// trailing space 
-true  ; } MetaData BodyLength
-{
-uint8
-pack,zchar[ 1]float ,  float32 x_y_z `` ,u32
-i8,i16 body  , }
-")).
-Eval vm_compute in ("<<<M564>>>" ++ check (runes_of_ascii "options
-{
-matchKey = 42/// triple
-x='0' ;
-// packet A { u8 x, }
-//
-charz
-=
-// packet A { u8 x, }
-// trailing space 
-true  ; } MetaData BodyLength
-{
-uint8
-pack,zchar[ 1]float ,  float32 x_y_z `` ,u32
-_x,i16 body  ,")).
-Eval vm_compute in ("<<<M555>>>" ++ check (runes_of_ascii "options
-{
-matchKey = 42/// triple
-x='0' ;
-// packet A { u8 x, }
-//
-charz
-=
-// packet A { u8 x, }
-// trailing space 
-true  ; } MetaData BodyLength
-{
-uint8
-pack,zchar[ 1]float ,  float32 x_y_z `` ,u32
-_x,i16")).
-Eval vm_compute in ("<<<M566>>>" ++ check (runes_of_ascii "options
-{
-matchKey = 42/// triple
-x='0' ;
-// packet A { u8 x, }
-//
-charz
-=
-// packet A { u8 x, }
-// trailing space 
-true  ; } MetaData BodyLength
-{
-uint8
-pack,zchar[ 1]float ,  float32 x_")).
-Eval vm_compute in ("<<<M693>>>" ++ check (runes_of_ascii "// c
-packet i64_ {	char[] calculatedFrom , } packet
-trueish  {@calculatedFrom(
-""a\\"" ) o { i32 falsey@lengthOf( uint8x ),
-} , } // `tick` ""quote"" 'q'
-options { {// c
-Z9_ = ' '//
-}
-")).
-Eval vm_compute in ("<<<M515>>>" ++ check (runes_of_ascii "options
-{
-matchKey = 42/// triple
-x='0' ;
-// packet A { u8 x, }
-//
-charz
-=
-// packet A { u8 x, }
-// trailing space 
-true  ; } MetaData BodyLength
-{
-uint8
-pack,zchar[ 1]float ,")).
-Eval vm_compute in ("<<<M700>>>" ++ check (runes_of_ascii "// c
-packet i64_ {	char[] calculatedFrom , } packet
-trueish  {true
-""a\\"" ) o { i32 falsey@lengthOf( uint8x ),
-} , } // `tick` ""quote"" 'q'
-options {// c
-Z9_ = ' '//
-}
-")).
-Eval vm_compute in ("<<<M480>>>" ++ check (runes_of_ascii "options
-{
-matchKey = 42/// triple
-x='0' ;
-// packet A { u8 x, }
-//
-charz
-=
-// packet A { u8 x, }
-// trailing space 
-true  ; } MetaData BodyLength
-{
-uint8")).
-Eval vm_compute in ("<<<M2039>>>" ++ check (runes_of_ascii "
-options
-    {
-	u
-	=""a	b""  ;
-charz
-
-    =
-true
-	;
-
-matchKey
-= 	 //x
-  0123456789 u8x=
-char[]
-        // trailing space 
-Packet= false
-	; }")).
-Eval vm_compute in ("<<<M120>>>" ++ check (runes_of_ascii "root
-packet Header
+uint8x 00:
+body // " ++ [128512]%N ++ runes_of_ascii " emoji
+,
+[10/// triple
+, 42
+]
+    : packetx, }
+    ,}
+    ,@tag( 0123456789 )
+repeat  options1 options1	,u32 MetaDataX  @lengthOf(
     // packet A { u8 x, }
-    { // " ++ [27880; 37322]%N ++ runes_of_ascii "
-@lengthOf(
-rootA // a // b
-) int8 Foo//
-@lengthOf(	uint8x)`tab	here`
-,}
-")).
-Eval vm_compute in ("<<<M588>>>" ++ check (runes_of_ascii "MetaData MetaData
-    // trailing space 
-    matchKey
-{ u64 chars // a // b
-,char[] lengthOf `// not a comment`
-    , //	t
-}")).
-Eval vm_compute in ("<<<M1607>>>" ++ check (runes_of_ascii "
-
-  packet
-calculatedFrom
-{ @tag(
-4294967296 )
-    u msg_type, 
-char[3
-	]
-crc
-	@lengthOf(	len
-	) `u8 x,` 	 // c
-	,
-} ")).
-Eval vm_compute in ("<<<M651>>>" ++ check (runes_of_ascii "MetaData
-    // trailing space 
-    matchKey
-{ u64 chars // a // b
-,char[] lengthOf `// not a comment`
-   ~ , //	t
-}")).
-Eval vm_compute in ("<<<M241>>>" ++ check (runes_of_ascii "packet Pad {}packet
-    options1{// trailing space 
-}
-    // @lengthOf(
-    root
-packet
-crc
+    o) ,
+} root
+packet Pad // trailing space 
 {
-    repeat crc len , }")).
-Eval vm_compute in ("<<<M1934>>>" ++ check (runes_of_ascii "options {
-    LittleEndian = true;
+msg_type
+, }
+    packet  i64_ {
+float@lengthOf( f32a ) , u64 int @calculatedFrom( ""packet"" )
+`" ++ [28040; 24687; 31867; 22411]%N ++ runes_of_ascii "` , @leftPad// a // b
+( ' ' ) @calculatedFrom( ""\" ++ [233]%N ++ runes_of_ascii """
+)
+uint64  BodyLength	, zchar[65535 ]
+    crc , match
+    tag as
+charz { [
+""" ++ [128512]%N ++ runes_of_ascii """ ] //x
+: zchar ,
+    } // 50% %s
+,// " ++ [128512]%N ++ runes_of_ascii " emoji
+x @lengthOf( x // c
+) `100% of %d` , @tag( 7 ) float32
+i64_ @calculatedFrom( ""packet"" ) `line1
+line2`
+, repeat tag Logon
+    // a // b
+    , }packet leftPad{	}")).
+Eval vm_compute in ("<<<M582>>>" ++ check (runes_of_ascii "// " ++ [27880; 37322]%N ++ runes_of_ascii "
+packet chars { // c
 }
-
-root packet P {
-    u16 a,
-    u32 Sum @calculatedFrom(""CR\
-        C32""),
-}")).
-Eval vm_compute in ("<<<M1672>>>" ++ check (runes_of_ascii "packet	o { 
-    // c
-
-@tag(
-
-42
-
-) repeat
-
-x
-{
-
-    char[
-    0123456789
-    ] i64_ , }  ,} 
-options
-	{ 
-} ")).
-Eval vm_compute in ("<<<M1252>>>" ++ check (runes_of_ascii "
+    packet Z9_ {falsey
+    // packet A { u8 x, }
+    @calculatedFrom( ""x y"")`// not a comment` ,
+string Foo @calculatedFrom(
+    """" // @lengthOf(
+)// a // b
+,
+repeat
+o i64_ , @tag(
+    0123456789 ) repeat // " ++ [128512]%N ++ runes_of_ascii " emoji
+uint16
+T
+    ,
+match	trueish as // packet A { u8 x, }
+MetaDataX
+    { 0123456789
+    : MetaDataX ,
+3
+: trueish ,// `tick` ""quote"" 'q'
+[ 42
+, 7 //
+]
+: u8x ,
+    /// triple
+    ""1"" : Z9_
+    //
+    , }, uint32 // @lengthOf(
+zchar , As {
+Z9_ , Z9_{
+    //
+    zchar[ 7 ]	float
+// " ++ [128512]%N ++ runes_of_ascii " emoji
 // c
-packet calculatedFrom { @tag( 4294967296 ) u msg_type , char[ 3 ] crc @lengthOf( len ) `u8 x,` , }")).
-Eval vm_compute in ("<<<M1273>>>" ++ check (runes_of_ascii "packet calculatedFrom { @tag( 4294967296 ) u msg_type , char[ 3 // c
-] crc @lengthOf( len ) `u8 x,` , }")).
-Eval vm_compute in ("<<<M1668>>>" ++ check (runes_of_ascii "packet A {
-    Inner {
-        match k as n {
-            [1, 22, 007, 4, 5] : B,
+`it's` , Z9_ @lengthOf( options1 )
+    ,
+    stringy @lengthOf(
+i64_) , /// triple
+} , u8 metadata `u8 x,`
+    , }
+    /// triple
+    , @calculatedFrom( ""x y""//
+)
+    @calculatedFrom(""" ++ [28040; 24687]%N ++ runes_of_ascii """)@lengthOf( int ) match // trailing space 
+float as // 50% %s
+matchKey{ 7 : rootA , }
+    ,  @calculatedFrom(
+""" ++ [128512]%N ++ runes_of_ascii """) repeat string Logon  ,
+} options{  metadata =
+    // `tick` ""quote"" 'q'
+    float32 packetx
+= true;
+    Foo
+= '\x00' ;A
+= u16
+; } MetaData crc
+{// " ++ [27880; 37322]%N ++ runes_of_ascii "
+int8 uint8x ,	zchar[0	]
+// `tick` ""quote"" 'q'
+// 50% %s
+A,}")).
+Eval vm_compute in ("<<<M149>>>" ++ check (runes_of_ascii "root
+packet
+    u128 {match
+u8x as rootA
+    { 3 : repeatCount
+    0123456789: Pad 007 :
+matchKey , [ ""// no comment"" ,
+    """ ++ [28040; 24687]%N ++ runes_of_ascii """	, 7, """"
+]: leftPad ,
+    [
+1
+    // `tick` ""quote"" 'q'
+    , ""packet"" , ""packet"" ] :len ,
+""" ++ [128512]%N ++ runes_of_ascii """ :  matchKey} // a // b
+, Z9_ x  `line1
+line2`
+    , repeat f32a, i64_
+    @lengthOf(roots // `tick` ""quote"" 'q'
+), @lengthOf(
+x)
+match roots as
+zchar{
+    7 : matchKey ,
+""" ++ [28040; 24687]%N ++ runes_of_ascii """
+    : uint8x, [
+""a\""b"" , ""a\""b"",
+10 ,00 ] : BodyLength , }
+, @lengthOf( // packet A { u8 x, }
+Packet
+)match
+Header
+    as	u
+{ [ ""`tick`"" ,
+    00
+    , // " ++ [27880; 37322]%N ++ runes_of_ascii "
+1
+    ,
+    ""a\\""
+    ]
+: trueish//	t
+,
+    //
+    0 : calculatedFrom ,[
+42 ]	: metadata
+, 3
+: body , 10 : Z9_, } ,	zchar[ 42 ]pack @lengthOf( string_ ) /// triple
+,
+@lengthOf(
+falsey) body `u8 x,`
+, //
+repeat i64
+    msg_type ,} root
+    packet leftPad {
+// a // b
+/// triple
+stringy {Packet @calculatedFrom(""" ++ [28040; 24687]%N ++ runes_of_ascii """ )
+,
+    } // `tick` ""quote"" 'q'
+,
+uint16 // `tick` ""quote"" 'q'
+options1
+`line1
+line2`,// c
+}
+")).
+Eval vm_compute in ("<<<M188>>>" ++ check (runes_of_ascii "packet MetaDataX
+{ } packet leftPad { repeat Logon { asx { packetx `say ""hi""`
+    ,
+match metadata
+    as chars
+// trailing space 
+//	t
+{ [
+7 , 255
+] :falsey , 42 : f32a 42
+:
+    int """ ++ [233]%N ++ runes_of_ascii "t" ++ [233]%N ++ runes_of_ascii """
+:
+    u128 // a // b
+, } , }  ,  repeat trueish
+    , string
+    repeatCount@lengthOf( x ) `doc`,
+}
+, @rightPad ( ) zchar[ 3] // trailing space 
+u128 `tab	here`  ,
+@lengthOf(	i64_ ) @calculatedFrom(
+    ""abc""
+    ) @lengthOf(// 50% %s
+Z9_)int32 u8x`" ++ [28040; 24687; 31867; 22411]%N ++ runes_of_ascii "` , @rightPad
+(
+)  char[00 ] roots// `tick` ""quote"" 'q'
+,
+@rightPad ('\x00' )
+@tag(42
+    ) // trailing space 
+@calculatedFrom( ""a\""b"" ) repeat asx `crlf
+line` ,
+    x@lengthOf(_x// `tick` ""quote"" 'q'
+) , Logon `
+` , @rightPad  (
+'0') As @lengthOf(  crc
+) `" ++ [233]%N ++ runes_of_ascii "` ,
+@tag(
+10 ) int8  x_y_z @calculatedFrom(
+""" ++ [128512]%N ++ runes_of_ascii """ ),
+    asx	@lengthOf(
+u8x ) ,} MetaData
+stringy { int16 repeatCount `u8 x,` , } packet	repeatCount{
+    @tag( 7) repeat
+//	t
+// " ++ [27880; 37322]%N ++ runes_of_ascii "
+zchar[ 65535 ]o, x_y_z charz ,}")).
+Eval vm_compute in ("<<<M215>>>" ++ check (runes_of_ascii "packet
+Header { @lengthOf(
+    u128
+    )matchKey { Header//
+,
+// 50% %s
+// @lengthOf(
+}
+, char[] _x	@calculatedFrom(
+""// no comment"" ) // @lengthOf(
+,
+@calculatedFrom( """ ++ [28040; 24687]%N ++ runes_of_ascii """
+) repeat
+u8 Header `" ++ [233]%N ++ runes_of_ascii "` ,char[]
+Z9_
+    `line1
+line2` ,zchar[ 255]Header
+    /// triple
+    ,
+@leftPad
+( ' ') int8
+    x_y_z @lengthOf(falsey
+)
+    , //x
+@calculatedFrom( ""packet"" )  string x_y_z @lengthOf(asx )`
+`	, @calculatedFrom(""`tick`""
+    /// triple
+    ) char[]stringy ,
+    Z9_ , zchar[3 ]rootA ``
+,
+}packet // 50% %s
+Pad
+{ chars // @lengthOf(
+@lengthOf( // @lengthOf(
+tag ) , } root // " ++ [27880; 37322]%N ++ runes_of_ascii "
+packet
+/// triple
+/// triple
+string_ {@lengthOf(trueish  ) // packet A { u8 x, }
+@tag( 3
+    )// `tick` ""quote"" 'q'
+options1 @lengthOf(u
+    )
+`` ,
+} MetaData // packet A { u8 x, }
+tag	{	As pack,
+float x_y_z `100% of %d`, f32
+asx `two words`,char[  4294967296 ] trueish
+    ,
+matchKey i8i8`it's`,}
+")).
+Eval vm_compute in ("<<<M383>>>" ++ check (runes_of_ascii "
+root packet float {char[	42
+]
+charz @calculatedFrom( """ ++ [233]%N ++ runes_of_ascii "t" ++ [233]%N ++ runes_of_ascii """) `// not a comment`
+    , match	packetx //	t
+as chars // c
+{
+""it's"" : options1 ,
+    [ //x
+65535 ] : Pad,
+    ""// no comment"" :msg_type , [ ""// no comment"" ]
+    // @lengthOf(
+    :Logon
+    //x
+    ""a\\"" // " ++ [128512]%N ++ runes_of_ascii " emoji
+:Pad  ,	}
+    ,
+options1 {
+int16 matchKey `tab	here` /// triple
+, zchar[	007  ]
+body , } ,
+@tag(
+    3
+    ) @leftPad
+    ( ' ' ) a1 @calculatedFrom(""a\\"" ), string  Logon
+@calculatedFrom(
+""" ++ [233]%N ++ runes_of_ascii "t" ++ [233]%N ++ runes_of_ascii """  )
+    `doc`
+// packet A { u8 x, }
+// trailing space 
+, lengthOf
+{trueish
+float
+, x_y_z`a\`
+,}
+// packet A { u8 x, }
+// @lengthOf(
+,repeat
+    string Foo , repeat metadata i8i8
+    `tab	here`
+    ,@calculatedFrom(
+    ""a	b""	)
+    char[] charz /// triple
+@calculatedFrom( """"	) , }packet
+f32a
+{ chars
+//	t
+// packet A { u8 x, }
+f32a `doc`
+    // 50% %s
+    , } options
+    { }")).
+Eval vm_compute in ("<<<M3542>>>" ++ check (runes_of_ascii "options {
+    StringPrefixLenType = u16;
+    ArrayPrefixLenType = u32;
+    FixedStringPadChar = '0';
+}
+packet Ack {
+    zchar[9] Ref,
+    repeat u64 Flags,
+    char[9] lastPx,
+    char[] Tail,
+}
+packet Logon {
+    Ack,
+    repeat InSide298 {
+        repeat Ack,
+        u8 clOrdID,
+        repeat InNote61 {
+            zchar[4] tag7,
+            float32 clOrdID,
+            int16 Note,
+            char[] Acct,
+            uint16 Side2,
+            string OrderId,
         },
     },
+    u16 price,
+    uint8 Acct,
+    i32 tag7,
+    @rightPad('0') char[5] lastPx,
+}
+packet Cancel {
+    u16 seqNo,
+}
+packet Leg {
+    repeat Ack,
+    repeat InNote13 {
+        int32 seqNo,
+        Ack,
+    },
+}
+packet Quote {
+    string OrderId,
+}
+root packet Trade {
+    repeat InAcct24 {
+        float64 msgKind,
+    },
+}
+")).
+Eval vm_compute in ("<<<M4176>>>" ++ check (runes_of_ascii "packet i64_ {
+}
+
+packet o {
+    As leftPad `crlf
+    line`,
+    @calculatedFrom(""" ++ [233]%N ++ runes_of_ascii "t" ++ [233]%N ++ runes_of_ascii """)
+    i32 float ``,
+    falsey {
+        match rootA as roots {
+            ""a\""b"" : body,
+            1 : trueish,
+            ""\" ++ [233]%N ++ runes_of_ascii """ : a1,
+        },
+        f32 options1,
+        char[3] falsey `line1
+        line2`,
+    },
+    string matchKey `u8 x,`,
+    @calculatedFrom(""" ++ [233]%N ++ runes_of_ascii "t" ++ [233]%N ++ runes_of_ascii """)
+    uint8x @calculatedFrom(""{,}""),
+    zchar[0123456789] pack,
+    lengthOf @lengthOf(chars),//x
+    @calculatedFrom("""")
+    packetx `" ++ [233]%N ++ runes_of_ascii "`,
+    @tag(3)
+    match MetaDataX as uint8x {
+        007 : body,
+    },
+}
+
+options {
+    // `tick` ""quote"" 'q'
+    // " ++ [27880; 37322]%N ++ runes_of_ascii "
+    BodyLength = """ ++ [28040; 24687]%N ++ runes_of_ascii """;
+    float = 10;
+    // " ++ [128512]%N ++ runes_of_ascii " emoji
+    // trailing space 
+    string_ = '0'
+    packetx = '0';// a // b
+    repeatCount = i64
 }")).
-Eval vm_compute in ("<<<M904>>>" ++ check (runes_of_ascii "packet A {
-  match k as n {
-    [1, 22, 007, 4, 5, 66, 7, 8, 9, 10, 11, 12] : B
-    2 : C
-  },
-}")).
-Eval vm_compute in ("<<<M1151>>>" ++ check (runes_of_ascii "packet Logon { @tag( 42 ) @rightPad ( ' ' ) @leftPad
+Eval vm_compute in ("<<<M3557>>>" ++ check (runes_of_ascii "options 
+{
+	LittleEndian
+
+    = 
+true ;ArrayPrefixLenType
+
+= u32 ; }packet
+
+Order	{ repeat u64  Acct,i16 price,
+	}
+	packet Logon{  zchar[ 3 ]  venue,
+
+    string
+	Flags
+	,
+    repeat
+
+InQty82	{string
+
+    Px
+, }  ,repeat char[  1
+
+    ]	clOrdID	,}  packet	Cancel { int32
+Tail
+
+,
+repeat
+Logon,
+repeat
+
+InFlags55
+{
+
+    uint64
+    Note ,
+repeat InQty28
+	{	char[]msgKind
+,
+
+    char[
+7
+]OrderId
+, 
+}
+
+, char[]
+
+    Px 
+,
+
+    }
+,
+
+int16	Ref
+
+,
+	} root
+    packet Leg
+
+{
+    repeat 
+Logon , 
+char[]
+
+venue
+,
+    u16
+Flags ,  i16  Tail ,	repeat
+	Cancel
+    ,u8 Side2
+
+,
+match
+    Side2
+
+    as 
+Body
+{  151	:	Logon
+	,
+148 :
+
+    Order,162:Cancel 
+,
+}
+
+    ,
+	u16 x
+@calculatedFrom(
+    ""CRC32"" )
+    ,}
+")).
+Eval vm_compute in ("<<<M601>>>" ++ check (runes_of_ascii "  MetaData lengthOf{ o
+    falsey `u8 x,` , char[] u8x , }	packet leftPad { }  options
+    {string_ =char[ 0123456789]
+} packet u{
+roots { char[ 0 ]
+// `tick` ""quote"" 'q'
 // c
-( ) repeat trueish { string T , } , }")).
-Eval vm_compute in ("<<<M385>>>" ++ check (runes_of_ascii "root packet SimpleMessage {
-    uint16 MsgType `" ++ [28040; 24687; 31867; 22411]%N ++ runes_of_ascii "`,
-    string JsonBody `Json" ++ [23383; 31526; 20018; 28040; 24687; 20307]%N ++ runes_of_ascii "`,
+leftPad,repeat i64 matchKey //
+,
+repeat leftPad
+stringy
+    ``
+,
+stringy  @calculatedFrom(
+    ""x y"" ) `100% of %d`,} ,  uint16
+    calculatedFrom
+// a // b
+//	t
+, @calculatedFrom( ""1"" ) repeat string i8i8 ,repeat matchKey`line1
+line2` , Pad@calculatedFrom(
+    // @lengthOf(
+    """" ) `u8 x,` , @tag( 65535
+    )
+repeat char[] asx `" ++ [28040; 24687; 31867; 22411]%N ++ runes_of_ascii "` ,
+@tag( 00 ) uint8x@calculatedFrom( ""{,}"") // @lengthOf(
+, chars _x,	body `" ++ [28040; 24687; 31867; 22411]%N ++ runes_of_ascii "` // c
+,
+    int64// " ++ [27880; 37322]%N ++ runes_of_ascii "
+Logon@calculatedFrom(
+    """ ++ [233]%N ++ runes_of_ascii "t" ++ [233]%N ++ runes_of_ascii """ ) , }
+    packet Z9_
+    {
+}
+// " ++ [27880; 37322]%N ++ runes_of_ascii "
+")).
+Eval vm_compute in ("<<<M343>>>" ++ check (runes_of_ascii "// " ++ [27880; 37322]%N ++ runes_of_ascii "
+MetaData
+    rootA
+    { f64 As, f64//
+int `two words` // `tick` ""quote"" 'q'
+,
+f32//x
+body// " ++ [128512]%N ++ runes_of_ascii " emoji
+`say ""hi""` , zchar[
+4294967296
+]/// triple
+x ,// a // b
+uint32
+// " ++ [27880; 37322]%N ++ runes_of_ascii "
+// c
+lengthOf
+`
+` , }root packet pack { match pack
+    as	repeatCount { ""CRC32"":  crc 1 :calculatedFrom,
+[""packet"" ,
+""{,}"", 10 , ""a\\""	] :float,//	t
+""packet"" : _x  , 10
+: o , }
+,match a1  as
+T { 65535	:
+Z9_ 0
+    :_x ,
+    }, u64 Pad //	t
+`" ++ [233]%N ++ runes_of_ascii "` , @calculatedFrom(
+""packet"" )	MetaDataX
+pack , char[	007 ]
+uint8x ,  i8i8 @lengthOf( msg_type)
+    `u8 x,` ,@rightPad ( '\x00')
+string_
+    `" ++ [233]%N ++ runes_of_ascii "`  ,
+} root	packet
+a1 { }MetaData x_y_z{ i16
+roots `say ""hi""`
+/// triple
+// `tick` ""quote"" 'q'
+, }")).
+Eval vm_compute in ("<<<M845>>>" ++ check (runes_of_ascii "
+root packet u //	t
+{zchar[
+    4294967296 ] Header @lengthOf( uint8x ) ,charz , @lengthOf( packetx ) uint8x lengthOf `crlf
+line` ,
+    zchar[ 007	] o ,repeat u8x {
+    // " ++ [27880; 37322]%N ++ runes_of_ascii "
+    string //x
+metadata``,}
+,}  MetaData string_ {	char
+    options1 ``, As packetx
+`crlf
+line` , char[
+    00 ]
+    T , string string_ `// not a comment`,
+i32 lengthOf ,
+zchar[ 007 //
+]
+u	, //	t
+}
+    packet trueish{ // " ++ [27880; 37322]%N ++ runes_of_ascii "
+} options
+    {
+Foo
+= int16
+    ; As=
+    ' '; zchar =
+/// triple
+// 50% %s
+3 chars = false	;
+As =
+string  }MetaData o
+    {
+    zchar[
+// 50% %s
+// trailing space 
+007 ] i64_ ,char[ 3
+]Logon
+    `" ++ [233]%N ++ runes_of_ascii "`	, char[
+7
+]stringy
+`
+`
+,
+}
+")).
+Eval vm_compute in ("<<<M3902>>>" ++ check (runes_of_ascii "packet _x {
+    char[] options1,
+    // packet A { u8 x, }
+    /// triple
+}
+
+options {
+    Foo = string;
+}
+
+packet BodyLength {
+}
+
+root packet Z9_ {
+    @lengthOf(repeatCount)
+    i8i8 string_ `line1
+        line2`,
+    i8i8,
+    u64 u128,
+    @leftPad('0')
+    // `tick` ""quote"" 'q'
+    // packet A { u8 x, }
+    match Pad as T {
+        """ ++ [128512]%N ++ runes_of_ascii """ : Packet,
+        ""x y"" : tag,
+    },
+    repeat rootA `it's`,
+    repeat options1 {
+        lengthOf,
+        string calculatedFrom @calculatedFrom(""it's""),
+        metadata @calculatedFrom(""" ++ [28040; 24687]%N ++ runes_of_ascii """),
+        // `tick` ""quote"" 'q'
+        /// triple
+    },// " ++ [128512]%N ++ runes_of_ascii " emoji
 }")).
-Eval vm_compute in ("<<<M877>>>" ++ check (runes_of_ascii "packet A {
+Eval vm_compute in ("<<<M3521>>>" ++ check (runes_of_ascii "packet Logon // c1a
+  // c1b
+{
+    // c2
+string // c3
+user // c4
+, // c5
+} // c6a
+  // c6b
+root // c7
+packet Frame { // c10a
+  // c10b
+u8
+    // c11
+K // c12a
+  // c12b
+, match
+    // c14
+K // c15a
+  // c15b
+as
+    // c16
+Body { 1 // c19
+: Logon , // c22
+2 // c23a
+  // c23b
+:
+    // c24
+Logout , // c26a
+  // c26b
+} // c27
+, Tail
+    // c29
+, // c30a
+  // c30b
+} // c31a
+  // c31b
+packet // c32a
+  // c32b
+Logout { // c34
+u16 // c35a
+  // c35b
+reason // c36
+, // c37a
+  // c37b
+} // c38a
+  // c38b
+packet
+    // c39
+Tail
+    // c40
+{
+    // c41
+u32 crc // c43a
+  // c43b
+, } ")).
+Eval vm_compute in ("<<<M15>>>" ++ check (runes_of_ascii "
+packet body/// triple
+{  match crc  as len
+    { [ // trailing space 
+""x y"" , 10 ]
+: a1 ,
+"""":a1
+    ""`tick`""
+:
+// 50% %s
+// @lengthOf(
+Header""" ++ [28040; 24687]%N ++ runes_of_ascii """: // " ++ [27880; 37322]%N ++ runes_of_ascii "
+A, 10 :crc} , @calculatedFrom( ""packet"" )
+    // packet A { u8 x, }
+    match u128 as//x
+Pad
+{ [ 10,	7] :BodyLength ,
+    007: Header, 65535:MetaDataX
+    00 :
+//	t
+// " ++ [128512]%N ++ runes_of_ascii " emoji
+Header
+// trailing space 
+//	t
+,
+    1: body , },}packet u8x {x_y_z
+BodyLength `100% of %d`
+    , }
+    MetaData rootA {	char[]	tag , zchar[0
+] chars ,string_ crc, i64_ matchKey
+`
+`  ,// " ++ [128512]%N ++ runes_of_ascii " emoji
+int8 u8x `two words` , }")).
+Eval vm_compute in ("<<<M3564>>>" ++ check (runes_of_ascii "
+
+  options{
+
+LittleEndian 
+=true
+; ArrayPrefixLenType=
+    u32 ; FixedStringPadFromLeft
+    =
+    true;
+
+FixedStringPadChar 
+='0'	;
+    }packet  Party
+    {  } root
+	packet	Heartbeat 
+{ repeat
+    string Tail
+, 
+InRef14{	InMsgkind17
+{ 
+int8
+
+    Flags
+, char[10	]	Acct 
+,
+
+    zchar[
+
+    4 ]
+	sym , 
+i8
+
+    Px , }
+    ,
+
+string Px,
+
+    }
+,uint16 
+seqNo , int64	tag7
+
+,u16
+    Note
+
+    , 
+u32 Px	@lengthOf(
+Body  )
+    ,  match
+Note as
+	Body
+
+    {  96
+:
+
+    Party  ,
+	}, u16 Acct @calculatedFrom( ""CRC32"") ,}
+
+")).
+Eval vm_compute in ("<<<M96>>>" ++ check (runes_of_ascii "packet rootA
+    // `tick` ""quote"" 'q'
+    { @rightPad // @lengthOf(
+(
+'\x00' )
+roots { zchar[007 ] _x , repeat float64	a1 ,
+repeat	f32	Pad , }	,
+    @calculatedFrom(
+    ""\n"" ) zchar	`doc` , @leftPad (  '0' ) Z9_ @calculatedFrom( """ ++ [28040; 24687]%N ++ runes_of_ascii """) // trailing space 
+`crlf
+line` ,
+    // " ++ [128512]%N ++ runes_of_ascii " emoji
+    repeat
+    //x
+    x {match Logon // " ++ [128512]%N ++ runes_of_ascii " emoji
+as i64_ {
+    [""a\""b""  ]
+    :
+A}	,
+} , //	t
+@leftPad( ' ' ) tag {
+uint16
+metadata//x
+, // 50% %s
+} , @lengthOf(
+    repeatCount ) As @calculatedFrom( ""packet""),}
+// 50% %s
+")).
+Eval vm_compute in ("<<<M860>>>" ++ check (runes_of_ascii "root packet crc { @lengthOf( packetx ) repeat leftPad `say ""hi""`
+    , @tag(
+3)char[]u8x
+,
+    match // " ++ [27880; 37322]%N ++ runes_of_ascii "
+Pad as	tag
+{3:u128 // " ++ [27880; 37322]%N ++ runes_of_ascii "
+, ""{,}"" : A ,// @lengthOf(
+""it's""
+: o , } , match i64_ as msg_type{ ""packet"": A  [ ""a\\"" ,
+    ""packet"",// c
+65535 ,
+1	,""a\""b"" ,""{,}""]
+:  u8x ,[65535 , 00] // " ++ [128512]%N ++ runes_of_ascii " emoji
+: lengthOf ,	""`tick`"": Z9_ 7
+: //
+zchar
+    , 65535 :
+    i64_ , } ,
+    @calculatedFrom( ""abc"" ) @tag(	1)
+@lengthOf(
+charz )
+    char[]
+leftPad @lengthOf( repeatCount  )
+    `a\`, }
+")).
+Eval vm_compute in ("<<<M1185>>>" ++ check (runes_of_ascii "// trailing space 
+root packet roots { charz
+//x
+// " ++ [27880; 37322]%N ++ runes_of_ascii "
+repeatCount , char[] Pad @calculatedFrom( """ ++ [233]%N ++ runes_of_ascii "t" ++ [233]%N ++ runes_of_ascii """
+) , // a // b
+@tag(00 ) @leftPad ( '0'
+)repeat pack { u32 lengthOf
+,  repeat float64
+    x_y_z , } , roots { zchar[	007
+    ]
+int, repeat int64
+    msg_type `" ++ [28040; 24687; 31867; 22411]%N ++ runes_of_ascii "` ,
+},
+@leftPad  ( '\x00')
+    f32
+BodyLength // `tick` ""quote"" 'q'
+, }packet Z9_
+{
+//x
+// 50% %s
+repeat body { repeat char[ // c
+3
+// " ++ [128512]%N ++ runes_of_ascii " emoji
+// " ++ [128512]%N ++ runes_of_ascii " emoji
+]
+// " ++ [27880; 37322]%N ++ runes_of_ascii "
+// trailing space 
+int
+    ,
+}
+,}")).
+Eval vm_compute in ("<<<M1176>>>" ++ check (runes_of_ascii "
+MetaData
+repeatCount
+{As A , matchKey roots
+    // packet A { u8 x, }
+    ,
+    repeatCount body `it's` ,
+}
+root
+packet
+crc { @calculatedFrom(
+    ""a\""b"" ) @tag(
+    0123456789 )@rightPad ()
+    zchar[
+    7 ] calculatedFrom // @lengthOf(
+, } packet leftPad {  @calculatedFrom( ""// no comment"" ) @calculatedFrom(
+""it's"")repeat _x `{ , }`, }
+    // trailing space 
+    options //x
+{	u
+    =0
+; calculatedFrom= ""1"" // " ++ [128512]%N ++ runes_of_ascii " emoji
+; zchar =""" ++ [128512]%N ++ runes_of_ascii """ }
+")).
+Eval vm_compute in ("<<<M3311>>>" ++ check (runes_of_ascii "// top
+options
+    // c0
+{
+    // c1
+u
+    // c2
+=
+    // c3
+00
+    // c4
+stringy
+    // c5
+=
+    // c6
+'0'
+    // c7
+}
+    // c8
+packet
+    // c9
+stringy
+    // c10
+{
+    // c11
+}
+    // c12
+MetaData
+    // c13
+repeatCount
+    // c14
+{
+    // c15
+MetaDataX
+    // c16
+leftPad
+    // c17
+,
+    // c18
+string
+    // c19
+body
+    // c20
+`
+`
+    // c21
+,
+    // c22
+metadata
+    // c23
+options1
+    // c24
+,
+    // c25
+}
+    // c26
+")).
+Eval vm_compute in ("<<<M4353>>>" ++ check (runes_of_ascii "MetaData i64_ {
+    uint8x As `say ""hi""`,
+    body options1 `
+    `,
+    // packet A { u8 x, }
+    string_ chars,
+    u64 f32a,
+}
+
+root packet T {
+    @tag(00)
+    pack @calculatedFrom(""// no comment""),
+    lengthOf rootA `" ++ [233]%N ++ runes_of_ascii "`,
+    @lengthOf(i64_)
+    repeat falsey {
+        repeat BodyLength {
+            len,
+        },
+        uint32 crc @lengthOf(stringy) `" ++ [28040; 24687; 31867; 22411]%N ++ runes_of_ascii "`,
+    },// " ++ [128512]%N ++ runes_of_ascii " emoji
+    u8 i64_ @lengthOf(rootA),
+}")).
+Eval vm_compute in ("<<<M3631>>>" ++ check (runes_of_ascii "packet trueish {
+    @leftPad('\x00')
+    falsey zchar,
+    i32 u ``,
+    match falsey as u8x {
+        1 : int,
+        3 : i64_,
+        [0123456789] : leftPad,
+        [4294967296] : calculatedFrom,
+        ""CRC32"" : body,
+        0 : lengthOf,
+    },
+    char[] As,
+    repeat leftPad {
+        Foo,
+    },
+    float32 Pad @calculatedFrom(""a	b"") `it's`,
+    repeat f32 options1 `doc`,
+    zchar A,
+}")).
+Eval vm_compute in ("<<<M4444>>>" ++ check (runes_of_ascii "options {
+    // c
+    len = true;
+}
+
+packet pack {
+    uint8 rootA `line1
+        line2`,
+}
+
+options {
+    u = ""\n"";
+    MetaDataX = ""`tick`"";
+    charz = """ ++ [233]%N ++ runes_of_ascii "t" ++ [233]%N ++ runes_of_ascii """;
+}
+
+root packet i8i8 {
+    //x
+    @rightPad(' ')
+    i32 msg_type,
+    @tag(007)
+    BodyLength @lengthOf(charz) ``,
+    @leftPad()
+    A @calculatedFrom(""" ++ [233]%N ++ runes_of_ascii "t" ++ [233]%N ++ runes_of_ascii """),
+    char zchar @lengthOf(lengthOf) `crlf
+        line`,
+}")).
+Eval vm_compute in ("<<<M4225>>>" ++ check (runes_of_ascii "
+
+  packet
+	trueish {x
+
+metadata, uint16
+f32a  // trailing space 
+  , repeat
+leftPad
+
+    {
+
+    match MetaDataX
+
+as
+    lengthOf
+{  4294967296
+
+: calculatedFrom,[
+
+    ""a\\""
+, ""a\\""
+    ] :	len	,
+0
+: 
+    // `tick` ""quote"" 'q'
+
+f32a	,[
+""CRC32""]
+:
+chars , 
+
+    // @lengthOf(
+
+// " ++ [128512]%N ++ runes_of_ascii " emoji
+    	65535	: /// triple
+	i8i8	,
+}
+    , }// packet A { u8 x, }
+	,} ")).
+Eval vm_compute in ("<<<M1331>>>" ++ check (runes_of_ascii "
+packet
+    //
+    x { @tag( 0 ) options1 `
+`
+, @calculatedFrom( ""\n"" // c
+) repeat
+// " ++ [27880; 37322]%N ++ runes_of_ascii "
+// 50% %s
+asx
+// packet A { u8 x, }
+/// triple
+float  `a\` ,
+repeat
+    zchar[
+65535] metadata
+    , } options { As	= ""packet"" ;Logon// `tick` ""quote"" 'q'
+= 4294967296 ;rootA = //	t
+'\x00' ; } MetaData BodyLength {
+    zchar[ //	t
+1 // 50% %s
+]BodyLength , }
+")).
+Eval vm_compute in ("<<<M56>>>" ++ check (runes_of_ascii "  packet
+// " ++ [27880; 37322]%N ++ runes_of_ascii "
+// c
+matchKey {@tag(0 ) @lengthOf(
+chars
+    )
+@calculatedFrom( ""`tick`"")
+f64 asx , @calculatedFrom(
+    """ ++ [128512]%N ++ runes_of_ascii """
+)repeat repeatCount charz `tab	here`,/// triple
+@rightPad (  ) string_  ,
+    }	options {
+repeatCount
+// a // b
+/// triple
+= char[
+1 ]
+    lengthOf= """ ++ [28040; 24687]%N ++ runes_of_ascii """ // packet A { u8 x, }
+As= ""a\\""
+o = '\x00'
+i8i8 =true ;
+} 	 ")).
+Eval vm_compute in ("<<<M150>>>" ++ check (runes_of_ascii "packet matchKey
+    {  @tag( // @lengthOf(
+10 )
+repeat _x,
+}  packet
+    pack{ } packet asx {  repeat
+    int64 metadata `// not a comment` , @calculatedFrom(""it's"" ) repeat char[ 0123456789 ] msg_type `u8 x,` , @rightPad( )
+    // packet A { u8 x, }
+    repeat
+    float
+, string float
+@calculatedFrom(
+    ""abc"") // c
+,}
+
+")).
+Eval vm_compute in ("<<<M3314>>>" ++ check (runes_of_ascii "// top
+MetaData
+    // c0
+float
+    // c1
+{
+    // c2
+uint8
+    // c3
+BodyLength
+    // c4
+,
+    // c5
+}
+    // c6
+MetaData
+    // c7
+charz
+    // c8
+{
+    // c9
+float32
+    // c10
+trueish
+    // c11
+`a\`
+    // c12
+,
+    // c13
+i16
+    // c14
+metadata
+    // c15
+`say ""hi""`
+    // c16
+,
+    // c17
+}
+    // c18
+")).
+Eval vm_compute in ("<<<M4513>>>" ++ check (runes_of_ascii "
+
+  MetaData
+A {  zchar[
+	0123456789
+
+    ] len
+
+,  len  float// " ++ [27880; 37322]%N ++ runes_of_ascii "
+    `it's`  ,
+int16 rootA
+`" ++ [233]%N ++ runes_of_ascii "`
+	// packet A { u8 x, }
+,
+_x  len
+
+`100% of %d` ,
+
+}
+options
+	{  i64_
+	=true
+
+;}
+	options
+
+{
+stringy 
+
+// c
+  = 	 // @lengthOf(
+
+  '\x00'}
+	packet pack
+{  }options 
+{
+    chars =	""a\""b""
+} /// triple")).
+Eval vm_compute in ("<<<M1897>>>" ++ check (runes_of_ascii "packet	packetx { // trailing space 
+x_y_z
+{
+string
+charz ,
+string x// @lengthOf(
+`two words` `two words`
+    ,  u8x { // `tick` ""quote"" 'q'
+charz `100% of %d` // packet A { u8 x, }
+,}// " ++ [27880; 37322]%N ++ runes_of_ascii "
+,} , }
+    // a // b
+    packet metadata {  @leftPad ( '0') repeat i32 options1 ,u64 uint8x , }
+")).
+Eval vm_compute in ("<<<M2017>>>" ++ check (runes_of_ascii "packet	packetx { // trailing space 
+x_y_z
+{
+string
+charz ,
+string x// @lengthOf(
+`two words`
+    ,  u8x { // `tick` ""quote"" 'q'
+charz `100% of %d` // packet A { u8 x, }
+,}// " ++ [27880; 37322]%N ++ runes_of_ascii "
+,} , }
+    // a // b
+    packet metadata {  @leftPad ( '0') repeat i32 options1 ,u64 uint8x uint8x , }
+")).
+Eval vm_compute in ("<<<M498>>>" ++ check (runes_of_ascii "packet Pad { @tag( 007
+    ) float32 x
+@calculatedFrom(
+""" ++ [28040; 24687]%N ++ runes_of_ascii """ ) `a\` ,
+    x_y_z // a // b
+@calculatedFrom(""" ++ [28040; 24687]%N ++ runes_of_ascii """ )
+,  pack
+    //
+    uint8x// c
+`line1
+line2`
+    ,}
+    packet
+// `tick` ""quote"" 'q'
+// a // b
+rootA {@tag( 0123456789 )falsey	pack, // " ++ [128512]%N ++ runes_of_ascii " emoji
+}  packet charz
+{}
+
+")).
+Eval vm_compute in ("<<<M2041>>>" ++ check (runes_of_ascii "packet	packetx { // trailing space 
+x_y_z
+{
+string
+charz ,
+string x// @le" ++ [127]%N ++ runes_of_ascii "ngthOf(
+`two words`
+    ,  u8x { // `tick` ""quote"" 'q'
+charz `100% of %d` // packet A { u8 x, }
+,}// " ++ [27880; 37322]%N ++ runes_of_ascii "
+,} , }
+    // a // b
+    packet metadata {  @leftPad ( '0') repeat i32 options1 ,u64 uint8x , }
+")).
+Eval vm_compute in ("<<<M1978>>>" ++ check (runes_of_ascii "packet	packetx { // trailing space 
+x_y_z
+{
+string
+charz ,
+string x// @lengthOf(
+`two words`
+    ,  u8x { // `tick` ""quote"" 'q'
+charz `100% of %d` // packet A { u8 x, }
+,}// " ++ [27880; 37322]%N ++ runes_of_ascii "
+,} , }
+    // a // b
+    packet metadata {  @leftPad '0' () repeat i32 options1 ,u64 uint8x , }
+")).
+Eval vm_compute in ("<<<M2021>>>" ++ check (runes_of_ascii "packet	packetx { // trailing space 
+x_y_z
+{
+string
+charz ,
+string x// @lengthOf(
+`two words`
+    ,  u8x { // `tick` ""quote"" 'q'
+charz `100% of %d` // packet A { u8 x, }
+,}// " ++ [27880; 37322]%N ++ runes_of_ascii "
+,} , }
+    // a // b
+    packet metadata {  @leftPad ( '0') repeat i32 options1 ,u64 uint8x  }
+")).
+Eval vm_compute in ("<<<M877>>>" ++ check (runes_of_ascii "MetaData
+calculatedFrom { float u , int32 roots
+    `` ,
+    char[ 0123456789]x_y_z, char
+    u128,//	t
+}root
+packet
+falsey{	@rightPad  (
+' ' )/// triple
+@lengthOf(stringy ) @calculatedFrom(
+""abc"" )
+    T
+u8x , uint8x
+    // a // b
+    @calculatedFrom( ""`tick`"" ),
+    }")).
+Eval vm_compute in ("<<<M4328>>>" ++ check (runes_of_ascii "root packet Pad {
+}
+
+packet As {
+    Logon {
+        repeat roots {
+            char[007] roots,
+            chars f32a,
+        },
+        charz @calculatedFrom(""" ++ [28040; 24687]%N ++ runes_of_ascii """),
+        zchar[3] repeatCount `
+                `,
+    },
+}
+
+MetaData u8x {
+    //
+    int64 Header,
+}")).
+Eval vm_compute in ("<<<M1276>>>" ++ check (runes_of_ascii "packet calculatedFrom	{@tag( 0  )repeat _x u8x , } packet roots {
+} // @lengthOf(
+packet falsey { f64 i8i8 ,	}
+packet trueish {} MetaData string_ {	charz a1
+// " ++ [27880; 37322]%N ++ runes_of_ascii "
+//
+,
+i8 asx ,stringy Foo `crlf
+line`
+, len Pad `
+`,
+    char[ 1 ] string_
+    , char[] falsey ,}
+")).
+Eval vm_compute in ("<<<M2080>>>" ++ check (runes_of_ascii "packet// packet A { u8 x, }
+repeatCount	{// packet A { u8 x, }
+@leftPad ( '\x00'
+) ) repeat u8x MetaDataX `crlf
+line`,
+    repeat
+    char[] MetaDataX
+    ,
+u64	uint8x@calculatedFrom(""a\""b""
+// c
+// packet A { u8 x, }
+) `tab	here`
+,//
+}MetaData pack
+    {
+    }
+")).
+Eval vm_compute in ("<<<M1479>>>" ++ check (runes_of_ascii "packet calculatedFrom
+{ @calculatedFrom( ""a\\"" ) zchar[ 4294967296 ]
+calculatedFrom@lengthOf( pack )	`100% of %d` `100% of %d` ,char[]body@calculatedFrom( ""// no comment"" )  ,
+@tag( 007) //x
+int8
+leftPad`it's` , repeat pack
+    { repeat char[ 3] body
+,},
+}")).
+Eval vm_compute in ("<<<M2176>>>" ++ check (runes_of_ascii "packet// packet A { u8 x, }
+repeatCount	{// packet A { u8 x, }
+@leftPad ( '\x00'
+) repeat u8x MetaDataX `crlf
+line`,
+    repeat
+    char[] MetaDataX
+    ,
+u64	uint8x@calculatedFrom(""a\""b""
+// c
+// packet A { u8 x, }
+) `tab	here`
+,//
+}MetaData {
+    pack
+    }
+")).
+Eval vm_compute in ("<<<M1516>>>" ++ check (runes_of_ascii "packet calculatedFrom
+{ @calculatedFrom( ""a\\"" ) zchar[ 4294967296 ]
+calculatedFrom@lengthOf( pack )	`100% of %d` ,char[]body@calculatedFrom( ""// no comment"" )  @lengthOf(
+@tag( 007) //x
+int8
+leftPad`it's` , repeat pack
+    { repeat char[ 3] body
+,},
+}")).
+Eval vm_compute in ("<<<M2187>>>" ++ check (runes_of_ascii "packet// packet A { u8 x, }
+repeatCount	{// packet A { u8 x, }
+@leftPad ( '\x00'
+) repeat u8x MetaDataX `crlf
+line`,
+    repeat
+    char[] MetaDataX
+    ,
+u64	uint8x@calculatedFrom(""a\""b""
+// c
+// packet A { u8 x, }
+) `tab	here`
+,//
+}MetaData pack
+    {")).
+Eval vm_compute in ("<<<M1586>>>" ++ check (runes_of_ascii "packet calculatedFrom
+{ @calculatedFrom( ""a\\"" ) zchar[ 4294967296 ]
+calculatedFrom@lengthOf( pack )	`100% of %d` ,char[]body@calculatedFrom( ""// no comment"" )  ,
+@tag( 007) //x
+int8
+leftPad`it's` , repeat pack
+    { repeat char[ 3 255 body
+,},
+}")).
+Eval vm_compute in ("<<<M924>>>" ++ check (runes_of_ascii "packet
+Packet// " ++ [128512]%N ++ runes_of_ascii " emoji
+{@tag(10
+    //	t
+    ) string
+    roots@lengthOf(stringy	), int32
+    T//	t
+`{ , }`
+, repeat repeatCount
+{
+    u32
+len ,
+T rootA , char[ 7 ] falsey @lengthOf(
+    // " ++ [128512]%N ++ runes_of_ascii " emoji
+    crc
+    //x
+    ) , int16	BodyLength ,} , }
+")).
+Eval vm_compute in ("<<<M1450>>>" ++ check (runes_of_ascii "packet calculatedFrom
+{ @calculatedFrom( ""a\\"" ) zchar[ ] 4294967296
+calculatedFrom@lengthOf( pack )	`100% of %d` ,char[]body@calculatedFrom( ""// no comment"" )  ,
+@tag( 007) //x
+int8
+leftPad`it's` , repeat pack
+    { repeat char[ 3] body
+,},
+}")).
+Eval vm_compute in ("<<<M2183>>>" ++ check (runes_of_ascii "packet// packet A { u8 x, }
+repeatCount	{// packet A { u8 x, }
+@leftPad ( '\x00'
+) repeat u8x MetaDataX `crlf
+line`,
+    repeat
+    char[] MetaDataX
+    ,
+u64	uint8x@calculatedFrom(""a\""b""
+// c
+// packet A { u8 x, }
+) `tab	here`
+,//
+}MetaData pack")).
+Eval vm_compute in ("<<<M2139>>>" ++ check (runes_of_ascii "packet// packet A { u8 x, }
+repeatCount	{// packet A { u8 x, }
+@leftPad ( '\x00'
+) repeat u8x MetaDataX `crlf
+line`,
+    repeat
+    char[] MetaDataX
+    ,
+u64	uint8x""a\""b""
+// c
+// packet A { u8 x, }
+) `tab	here`
+,//
+}MetaData pack
+    {
+    }
+")).
+Eval vm_compute in ("<<<M1553>>>" ++ check (runes_of_ascii "packet calculatedFrom
+{ @calculatedFrom( ""a\\"" ) zchar[ 4294967296 ]
+calculatedFrom@lengthOf( pack )	`100% of %d` ,char[]body@calculatedFrom( ""// no comment"" )  ,
+@tag( 007) //x
+int8
+leftPad`it's` ,  pack
+    { repeat char[ 3] body
+,},
+}")).
+Eval vm_compute in ("<<<M553>>>" ++ check (runes_of_ascii "packet
+T {@calculatedFrom(// packet A { u8 x, }
+""`tick`"" ) @calculatedFrom( ""abc""
+    )
+    @calculatedFrom(
+""a\\""
+    )// trailing space 
+match body as options1 { """ ++ [233]%N ++ runes_of_ascii "t" ++ [233]%N ++ runes_of_ascii """ :
+    crc , ""packet"" : As
+,
+1 // @lengthOf(
+: rootA
+, }, }
+")).
+Eval vm_compute in ("<<<M489>>>" ++ check (runes_of_ascii "packet
+    leftPad {@lengthOf( stringy ) //
+repeat  char[ 1
+    // " ++ [128512]%N ++ runes_of_ascii " emoji
+    ]
+    /// triple
+    i64_ ,} options
+// a // b
+// packet A { u8 x, }
+{Header
+= 1	lengthOf
+    =
+    '0' ;
+    crc = 0 repeatCount= ' ' ;
+}")).
+Eval vm_compute in ("<<<M160>>>" ++ check (runes_of_ascii "
+packet f32a
+{ repeat MetaDataX `{ , }` , }
+MetaData float {
+char[] pack
+    `it's`
+    ,float
+    uint8x
+    , // a // b
+char[ 0123456789 ] pack `doc`
+    // packet A { u8 x, }
+    ,zchar[7
+    // c
+    ]x, }
+")).
+Eval vm_compute in ("<<<M105>>>" ++ check (runes_of_ascii "packet
+//	t
+// " ++ [128512]%N ++ runes_of_ascii " emoji
+options1 {
+//	t
+// packet A { u8 x, }
+char[
+    // `tick` ""quote"" 'q'
+    007 ]
+stringy`" ++ [28040; 24687; 31867; 22411]%N ++ runes_of_ascii "` ,i16 tag @calculatedFrom(""CRC32"")	,
+    }MetaData Pad// " ++ [128512]%N ++ runes_of_ascii " emoji
+{trueish
+Header , }
+")).
+Eval vm_compute in ("<<<M1614>>>" ++ check (runes_of_ascii "packet calculatedFrom
+{ @calculatedFrom( ""a\\"" ) zchar[ 4294967296 ]
+calculatedFrom@lengthOf( pack )	`100% of %d` ,char[]body@calculatedFrom( ""// no comment"" )  ,
+@tag( 007) //x
+int8
+leftPad`")).
+Eval vm_compute in ("<<<M961>>>" ++ check (runes_of_ascii "packet metadata { match u8x as // " ++ [128512]%N ++ runes_of_ascii " emoji
+i8i8{
+    [ ""x y"" ,  ""CRC32""	, 3 // a // b
+] :MetaDataX
+    , 7:
+    lengthOf , 42:
+Z9_ 255
+    :As
+, } ,
+// 50% %s
+//	t
+uint16	Foo`a\`
+    , }")).
+Eval vm_compute in ("<<<M1148>>>" ++ check (runes_of_ascii "packet packetx{ @tag( 007// trailing space 
+)
+match Packet as _x { ""abc""
+    //x
+    :calculatedFrom ,	4294967296 : Header,[""\" ++ [233]%N ++ runes_of_ascii """
+    // " ++ [128512]%N ++ runes_of_ascii " emoji
+    ]:
+    pack  , """ ++ [233]%N ++ runes_of_ascii "t" ++ [233]%N ++ runes_of_ascii """:chars } ,}")).
+Eval vm_compute in ("<<<M799>>>" ++ check (runes_of_ascii "root packet string_	{
+    // `tick` ""quote"" 'q'
+    x// a // b
+, repeat  char[] asx `tab	here` ,@rightPad () f32a { int64 As `two words`
+,
+    }, }
+MetaData float{ }
+//	t
+")).
+Eval vm_compute in ("<<<M4039>>>" ++ check (runes_of_ascii "
+options
+
+    {
+a1  =// " ++ [27880; 37322]%N ++ runes_of_ascii "
+
+  1;	tag
+=
+    string  ; 
+} packet // " ++ [27880; 37322]%N ++ runes_of_ascii "
+u { 
+float32
+leftPad`// not a comment`, }
+
+packet  int	{ 
+} options{ 
+Logon=
+
+    ""{,}""; 
+} ")).
+Eval vm_compute in ("<<<M2438>>>" ++ check (runes_of_ascii "
+packet @tag MetaDataX
+{
+    @leftPad
+( // a // b
+'0'
+) i8 u @lengthOf(
+MetaDataX
+    ) `say ""hi""` ,	} MetaData BodyLength {
+    asx
+x_y_z `" ++ [233]%N ++ runes_of_ascii "`
+, uint64 u128 , }
+")).
+Eval vm_compute in ("<<<M1325>>>" ++ check (runes_of_ascii "root	packet T { @calculatedFrom( """ ++ [28040; 24687]%N ++ runes_of_ascii """	) int8  Pad ,
+    repeat u16 int `// not a comment`,u16
+int
+    // a // b
+    `a\`
+// " ++ [128512]%N ++ runes_of_ascii " emoji
+/// triple
+,/// triple
+} 	 ")).
+Eval vm_compute in ("<<<M1700>>>" ++ check (runes_of_ascii "options { } packet Packet{char[] i64_ ,
+@tag(
+    255) match
+options as i8i8{""{,}"" : trueish """" : Pad , ""a\\"" :
+Foo ,
+    1 :packetx
+, """ ++ [128512]%N ++ runes_of_ascii """ : trueish , } , }")).
+Eval vm_compute in ("<<<M2392>>>" ++ check (runes_of_ascii "
+packet MetaDataX
+{
+    @leftPad
+( // a // b
+'0'
+i8 ) u @lengthOf(
+MetaDataX
+    ) `say ""hi""` ,	} MetaData BodyLength {
+    asx
+x_y_z `" ++ [233]%N ++ runes_of_ascii "`
+, uint64 u128 , }
+")).
+Eval vm_compute in ("<<<M1823>>>" ++ check (runes_of_ascii "options { } packet Packet{char[] i64_ ,
+@tag(
+    255) match
+crc as i8i8{""{,}"" : trueish """" : Pad , ""a\\"" :
+Foo ,
+    1 :packetx
+, """ ++ [128512]%N ++ runes_of_ascii """ : trueish , } , } }")).
+Eval vm_compute in ("<<<M1835>>>" ++ check (runes_of_ascii "options { } packet Packet{char[] i64_ ,
+@tag(
+    255\) match
+crc as i8i8{""{,}"" : trueish """" : Pad , ""a\\"" :
+Foo ,
+    1 :packetx
+, """ ++ [128512]%N ++ runes_of_ascii """ : trueish , } , }")).
+Eval vm_compute in ("<<<M1744>>>" ++ check (runes_of_ascii "options { } packet Packet{char[] i64_ ,
+@tag(
+    255) match
+crc as i8i8{""{,}"" : trueish """" : , Pad ""a\\"" :
+Foo ,
+    1 :packetx
+, """ ++ [128512]%N ++ runes_of_ascii """ : trueish , } , }")).
+Eval vm_compute in ("<<<M1655>>>" ++ check (runes_of_ascii "options { } packet char[{char[] i64_ ,
+@tag(
+    255) match
+crc as i8i8{""{,}"" : trueish """" : Pad , ""a\\"" :
+Foo ,
+    1 :packetx
+, """ ++ [128512]%N ++ runes_of_ascii """ : trueish , } , }")).
+Eval vm_compute in ("<<<M1732>>>" ++ check (runes_of_ascii "options { } packet Packet{char[] i64_ ,
+@tag(
+    255) match
+crc as i8i8{""{,}"" : trueish  : Pad , ""a\\"" :
+Foo ,
+    1 :packetx
+, """ ++ [128512]%N ++ runes_of_ascii """ : trueish , } , }")).
+Eval vm_compute in ("<<<M1707>>>" ++ check (runes_of_ascii "options { } packet Packet{char[] i64_ ,
+@tag(
+    255) match
+crc as {""{,}"" : trueish """" : Pad , ""a\\"" :
+Foo ,
+    1 :packetx
+, """ ++ [128512]%N ++ runes_of_ascii """ : trueish , } , }")).
+Eval vm_compute in ("<<<M1634>>>" ++ check (runes_of_ascii " { } packet Packet{char[] i64_ ,
+@tag(
+    255) match
+crc as i8i8{""{,}"" : trueish """" : Pad , ""a\\"" :
+Foo ,
+    1 :packetx
+, """ ++ [128512]%N ++ runes_of_ascii """ : trueish , } , }")).
+Eval vm_compute in ("<<<M3669>>>" ++ check (runes_of_ascii "
+root
+    packet
+stringy  {
+repeat 	 //	t
+  falsey
+	uint8x
+,
+
+Pad	@lengthOf( stringy
+
+)
+
+, Pad
+	@calculatedFrom(  ""{,}""
+    )	`" ++ [233]%N ++ runes_of_ascii "`
+
+,
+
+    }")).
+Eval vm_compute in ("<<<M3466>>>" ++ check (runes_of_ascii "options
+
+{ LittleEndian	=
+	true
+	; } 
+packet 
+B
+{u8	a , string s,  }
+	root
+	packet
+
+    P
+
+{	u16 L @lengthOf( B  )
+,
+B,
+    u8
+
+t
+, 
+}
+")).
+Eval vm_compute in ("<<<M3600>>>" ++ check (runes_of_ascii "packet Foo {
+    char[] matchKey `
+        `,
+    zchar[4294967296] tag @calculatedFrom(""" ++ [233]%N ++ runes_of_ascii "t" ++ [233]%N ++ runes_of_ascii """) ``,
+    charz @lengthOf(repeatCount),
+}")).
+Eval vm_compute in ("<<<M3595>>>" ++ check (runes_of_ascii "packet
+
+A
+{ match
+
+    k as n {
+	[
+1
+,
+
+    ""bb"" , 007,
+    ""d"",5 ,
+""f"" ,
+    7 , ""h""
+    ]: 
+B
+2:
+    C
+
+    }
+    ,  }
+
+")).
+Eval vm_compute in ("<<<M3654>>>" ++ check (runes_of_ascii "root packet lengthOf {
+    @tag(3)
+    @leftPad('\x00')
+    asx {
+        zchar[0] uint8x,
+        zchar[255] float,
+    },
+}")).
+Eval vm_compute in ("<<<M3289>>>" ++ check (runes_of_ascii "MetaData metadata { } MetaData rootA { i8 i64_ , roots options1 `a\` ,
+// c
+lengthOf Header , Z9_ Foo , int16 BodyLength , }")).
+Eval vm_compute in ("<<<M3458>>>" ++ check (runes_of_ascii "packet B {
+    u8 a,
+}
+root packet P {
+    u8 K,
+    match K as Body {
+        1 : B,
+    },
+    u16 L @lengthOf(Body),
+}
+")).
+Eval vm_compute in ("<<<M4359>>>" ++ check (runes_of_ascii "packet
+A
+
+{ match  k
+	as
+
+    n
+
+    {
+
+[
+
+1
+,22
+
+    ,	007
+	,
+4
+
+,
+
+    5 
+, 66
+]
+
+:
+	B ,
+
+2:
+C }
+
+,
+	} ")).
+Eval vm_compute in ("<<<M3086>>>" ++ check (runes_of_ascii "packet A {
+    u16 len @lengthOf(body) `%%d%!`,
+    u32 crc @calculatedFrom(""CRC32"") `%%d%!`,
+    string body,
+}")).
+Eval vm_compute in ("<<<M3328>>>" ++ check (runes_of_ascii "MetaData float { uint8 BodyLength , // c
+} MetaData charz { float32 trueish `a\` , i16 metadata `say ""hi""` , }")).
+Eval vm_compute in ("<<<M223>>>" ++ check (runes_of_ascii "options
+{ leftPad = """" ;	repeatCount = uint64; Header =	char[] ; BodyLength = '\x00' // trailing space 
+; }")).
+Eval vm_compute in ("<<<M3009>>>" ++ check (runes_of_ascii "packet A {
   match k as n {
-    [1, 22, 007, 4, 5, 66, 7, 8, 9, 10] : B,
+    [""a"", ""bb"", 007, ""d"", ""e"", 66, ""g"", ""h"", 9, ""j"", ""k""] : B
     2 : C
   },
 }")).
-Eval vm_compute in ("<<<M859>>>" ++ check (runes_of_ascii "packet A {
+Eval vm_compute in ("<<<M1324>>>" ++ check (runes_of_ascii "root packet zchar { @leftPad ('0') @rightPad (
+' '
+)@calculatedFrom( ""\" ++ [233]%N ++ runes_of_ascii """ ) repeat uint32 Header , }
+")).
+Eval vm_compute in ("<<<M282>>>" ++ check (runes_of_ascii "MetaData
+repeatCount	{	u64
+float , char[
+    // a // b
+    0 ]body `{ , }`,string falsey `doc` ,	}
+")).
+Eval vm_compute in ("<<<M3952>>>" ++ check (runes_of_ascii "packet  u
+
+{charz 
+        //	t
+
+// 50% %s
+	@calculatedFrom( // a // b
+    ""a	b""	)
+`u8 x,` 
+,} ")).
+Eval vm_compute in ("<<<M52>>>" ++ check (runes_of_ascii "MetaData options1{ // @lengthOf(
+int8 repeatCount ,u16 T , x x  ,	zchar[ 1 ] As  , u64 T , }
+")).
+Eval vm_compute in ("<<<M2976>>>" ++ check (runes_of_ascii "packet A {
   match k as n {
-    [1, 22, ""c c"", 4, 5, ""f"", 7, 8] : B,
+    [1, ""bb"", 007, ""d"", 5, ""f"", 7, ""h"", 9] : B,
     2 : C
   },
 }")).
-Eval vm_compute in ("<<<M815>>>" ++ check (runes_of_ascii "packet A {
+Eval vm_compute in ("<<<M2965>>>" ++ check (runes_of_ascii "packet A {
   match k as n {
-    [""a"", ""bb"", ""c c"", ""d"", ""e""] : B
+    [""a"", 22, ""c c"", 4, ""e"", 66, ""g"", 8] : B,
     2 : C
   },
 }")).
-Eval vm_compute in ("<<<M1234>>>" ++ check (runes_of_ascii "packet o { @tag( 42 ) repeat x { char[ 0123456789 ] i64_ , // c
-} , } options { }")).
-Eval vm_compute in ("<<<M833>>>" ++ check (runes_of_ascii "packet A {
+Eval vm_compute in ("<<<M8>>>" ++ check (runes_of_ascii "MetaData
+zchar { T stringy `// not a comment`
+// @lengthOf(
+// `tick` ""quote"" 'q'
+, } 	 ")).
+Eval vm_compute in ("<<<M3501>>>" ++ check (runes_of_ascii "packet
+	orderItem{ 
+u8  a
+
+,
+	} root
+packet	newOrder
+{
+    orderItem ,
+    u8
+x
+,  }
+")).
+Eval vm_compute in ("<<<M474>>>" ++ check (runes_of_ascii "// 50% %s
+options{ options1
+    = true packetx
+=char[] ;i64_
+    = ""\" ++ [233]%N ++ runes_of_ascii """ falsey=true}")).
+Eval vm_compute in ("<<<M2244>>>" ++ check (runes_of_ascii "MetaData _x {string x `// not a comment` , 
+i64_ // trailing space 
+`a\` ,
+    }
+")).
+Eval vm_compute in ("<<<M1726>>>" ++ check (runes_of_ascii "options { } packet Packet{char[] i64_ ,
+@tag(
+    255) match
+crc as i8i8{""{,}""")).
+Eval vm_compute in ("<<<M2926>>>" ++ check (runes_of_ascii "packet A {
   match k as n {
-    [1, 22, ""c c"", 4, 5, ""f""] : B,
+    [""a"", 22, ""c c"", 4, ""e""] : B,
     2 : C
   },
 }")).
-Eval vm_compute in ("<<<M825>>>" ++ check (runes_of_ascii "packet A {
+Eval vm_compute in ("<<<M2933>>>" ++ check (runes_of_ascii "packet A {
   match k as n {
     [1, 22, 007, 4, 5, 66] : B,
     2 : C
   },
 }")).
-Eval vm_compute in ("<<<M1483>>>" ++ check (runes_of_ascii "
-packet A
-{
+Eval vm_compute in ("<<<M3702>>>" ++ check (runes_of_ascii "packet A {
+    match k as n {
+        [""a"", 22] : B,
+        2 : C,
+    },
+}")).
+Eval vm_compute in ("<<<M4212>>>" ++ check (runes_of_ascii "
 
-match	k
-    as
-n
-{ [	1
-,  ""bb"" 
-] :
-B
-    , 2 :
+  //	t
 
-C},}
-
-")).
-Eval vm_compute in ("<<<M1316>>>" ++ check (runes_of_ascii "MetaData _x { zchar[
+options
+{msg_type	=
+// 50% %s
+	  //
+  ' '  ;
+	}  
+  // " ++ [128512]%N ++ runes_of_ascii " emoji")).
+Eval vm_compute in ("<<<M3898>>>" ++ check (runes_of_ascii "MetaData _x {
+    string x `// not a comment`,
+    string i64_ `a\`,
+}")).
+Eval vm_compute in ("<<<M3407>>>" ++ check (runes_of_ascii "packet o {
 // c
-4294967296 ] lengthOf `// not a comment` , }")).
-Eval vm_compute in ("<<<M642>>>" ++ check (runes_of_ascii "MetaData
-    // trailing space 
-    matchKey
-{ u64 chars // a // ")).
-Eval vm_compute in ("<<<M112>>>" ++ check (runes_of_ascii "options { calculatedFrom  =// `tick` ""quote"" 'q'
-""packet""; }
-")).
-Eval vm_compute in ("<<<M772>>>" ++ check (runes_of_ascii "packet A {
+@tag( 4294967296 ) options1 @lengthOf( u8x ) `" ++ [233]%N ++ runes_of_ascii "` , }")).
+Eval vm_compute in ("<<<M2903>>>" ++ check (runes_of_ascii "packet A {
   match k as n {
-    [1] : B,
+    [1, 22, ""c c""] : B
     2 : C
   },
 }")).
-Eval vm_compute in ("<<<M1937>>>" ++ check (runes_of_ascii "  MetaData
-zchar
-    {	// c
-
-zchar[
-	3
-] Pad ,}
-")).
-Eval vm_compute in ("<<<M939>>>" ++ check (runes_of_ascii "root packet A {
-    u8 x `a
-    b
-  c`,
+Eval vm_compute in ("<<<M2895>>>" ++ check (runes_of_ascii "packet A {
+  match k as n {
+    [1, 22, 007] : B
+    2 : C
+  },
 }")).
-Eval vm_compute in ("<<<M1809>>>" ++ check (runes_of_ascii "root packet A {
+Eval vm_compute in ("<<<M1264>>>" ++ check (runes_of_ascii "MetaData x // @lengthOf(
+{ u64 trueish // " ++ [27880; 37322]%N ++ runes_of_ascii "
+`" ++ [28040; 24687; 31867; 22411]%N ++ runes_of_ascii "`
+    ,
+}
+")).
+Eval vm_compute in ("<<<M4283>>>" ++ check (runes_of_ascii "/// triple
+root packet Foo {
+    char[0] Z9_,
+}// @lengthOf(")).
+Eval vm_compute in ("<<<M2906>>>" ++ check (runes_of_ascii "packet A { Inner { match k as n { [1,22,007] : B, }, }, }")).
+Eval vm_compute in ("<<<M875>>>" ++ check (runes_of_ascii "
+MetaData zchar
+    { char[] u `it's` /// triple
+,
+}
+")).
+Eval vm_compute in ("<<<M2304>>>" ++ check (runes_of_ascii "
+MetaData Pad{
+u32 u32 rootA `line1
+line2` ,
+    }
+")).
+Eval vm_compute in ("<<<M2342>>>" ++ check (runes_of_ascii "
+MetaData Pad{
+u32 rootA `line1
+line2` " ++ [233]%N ++ runes_of_ascii " ,
+    }
+")).
+Eval vm_compute in ("<<<M4490>>>" ++ check (runes_of_ascii "
+
+  options
+
+    {
+
+    trueish  = uint8  }
+
+")).
+Eval vm_compute in ("<<<M204>>>" ++ check (runes_of_ascii "options{ charz =
+    '\x00' ;float= ""it's"" }
+")).
+Eval vm_compute in ("<<<M1875>>>" ++ check (runes_of_ascii "packet	packetx { // trailing space 
+x_y_z
+{")).
+Eval vm_compute in ("<<<M1870>>>" ++ check (runes_of_ascii "packet	packetx { // trailing space 
+x_y_z")).
+Eval vm_compute in ("<<<M2629>>>" ++ check (runes_of_ascii "packet A { match k as n { [1 2] : B }, }")).
+Eval vm_compute in ("<<<M2579>>>" ++ check (runes_of_ascii "packet A { repeat u8 x @lengthOf(y), }")).
+Eval vm_compute in ("<<<M4270>>>" ++ check (runes_of_ascii "
+
+  MetaData
+	M
+{} // c
+  options{ } ")).
+Eval vm_compute in ("<<<M2623>>>" ++ check (runes_of_ascii "packet A { match k as n { 1 : B } }")).
+Eval vm_compute in ("<<<M4428>>>" ++ check (runes_of_ascii "packet A {
     u8 x `
         `,
 }")).
-Eval vm_compute in ("<<<M927>>>" ++ check (runes_of_ascii "root packet A {
-    u8 x `a
-b`,
+Eval vm_compute in ("<<<M2817>>>" ++ check (runes_of_ascii "u,#aoz$gE*) /0F8o%?""U,cJ}PDk=.ui")).
+Eval vm_compute in ("<<<M3141>>>" ++ check (runes_of_ascii "packet A {
+ u8 x `d" ++ [8232]%N ++ runes_of_ascii "`, // c" ++ [8232]%N ++ runes_of_ascii "
 }")).
-Eval vm_compute in ("<<<M1692>>>" ++ check (runes_of_ascii "packet
-    // c
-  lengthOf  {}")).
-Eval vm_compute in ("<<<M1891>>>" ++ check (runes_of_ascii "
-
-  // c x
-      packet A{ }
+Eval vm_compute in ("<<<M2732>>>" ++ check ([65533; 65533; 65533]%N ++ runes_of_ascii "8[W" ++ [65533; 65533]%N ++ runes_of_ascii "j" ++ [5; 65533; 65533]%N ++ runes_of_ascii "a_" ++ [65533; 65533]%N ++ runes_of_ascii "`G" ++ [17; 1230; 26; 65533; 65533]%N ++ runes_of_ascii "DX" ++ [1982]%N ++ runes_of_ascii "n7")).
+Eval vm_compute in ("<<<M1025>>>" ++ check (runes_of_ascii "packet/// triple
+Z9_
+{ }
 ")).
-Eval vm_compute in ("<<<M415>>>" ++ check (runes_of_ascii "options
-{
-matchKey = 42")).
-Eval vm_compute in ("<<<M69>>>" ++ check (runes_of_ascii "options	{ i64_ =00 }
+Eval vm_compute in ("<<<M2782>>>" ++ check (runes_of_ascii "zchar[ true ] } = ] i32 }")).
+Eval vm_compute in ("<<<M1294>>>" ++ check (runes_of_ascii "
+// `tick` ""quote"" 'q'
 ")).
-Eval vm_compute in ("<<<M985>>>" ++ check (runes_of_ascii "packet A {
-}
-// c" ++ [160]%N)).
-Eval vm_compute in ("<<<M1492>>>" ++ check (runes_of_ascii "MetaData charz {
+Eval vm_compute in ("<<<M2869>>>" ++ check (runes_of_ascii "hJB-Ofx?}ANWKa1;@/3Du")).
+Eval vm_compute in ("<<<M2371>>>" ++ check (runes_of_ascii "
+packet MetaDataX
+{")).
+Eval vm_compute in ("<<<M3115>>>" ++ check (runes_of_ascii "// c" ++ [160]%N ++ runes_of_ascii "
+packet A {
 }")).
-Eval vm_compute in ("<<<M1070>>>" ++ check (runes_of_ascii "packet A {
-}
+Eval vm_compute in ("<<<M3744>>>" ++ check (runes_of_ascii "MetaData Pad {
+}//")).
+Eval vm_compute in ("<<<M3157>>>" ++ check (runes_of_ascii "packet A {
+}// c" ++ [11]%N)).
+Eval vm_compute in ("<<<M2590>>>" ++ check (runes_of_ascii "packet A { x, }")).
+Eval vm_compute in ("<<<M2787>>>" ++ check (runes_of_ascii "i64 '0' false")).
+Eval vm_compute in ("<<<M4175>>>" ++ check (runes_of_ascii "options {
+}")).
+Eval vm_compute in ("<<<M2503>>>" ++ check (runes_of_ascii "@leftpad")).
+Eval vm_compute in ("<<<M47>>>" ++ check (runes_of_ascii "
+//	t
+")).
+Eval vm_compute in ("<<<M2470>>>" ++ check (runes_of_ascii "false")).
+Eval vm_compute in ("<<<M1113>>>" ++ check (runes_of_ascii "
 
 
 ")).
-Eval vm_compute in ("<<<M974>>>" ++ check (runes_of_ascii "// c ")).
-Eval vm_compute in ("<<<M44>>>" ++ check (@nil rune)).
+Eval vm_compute in ("<<<M970>>>" ++ check (runes_of_ascii " //")).
+Eval vm_compute in ("<<<M50>>>" ++ check (runes_of_ascii "
+
+")).
+Eval vm_compute in ("<<<M2538>>>" ++ check (runes_of_ascii "`")).
